@@ -112,30 +112,60 @@ theorem expireProbe_probing (intfName : BList) (acc : Registry × List Event × 
   · exact Or.inl rfl
   · split <;> exact Or.inr rfl
 
+theorem expireProbe_active_other (intfName : BList) (acc : Registry × List Event × List BList) (name n : BList) (h : n ≠ name) :
+    alookup n (expireProbe intfName acc name).1.active = alookup n acc.1.active := by
+  unfold expireProbe
+  split
+  · rfl
+  · simp only []
+    split
+    · rfl
+    · simp only []
+      exact alookup_aset_ne _ _ _ _ h
+
 theorem handleExpiredProbes_frame (expired : List BList) (intfName : BList) (r : Registry) (n : BList)
     (hpn : KeysNodup r.probing) :
     KeysNodup (handleExpiredProbes expired intfName r).1.probing ∧
-    (n ∉ expired → alookup n (handleExpiredProbes expired intfName r).1.probing = alookup n r.probing) := by
+    (n ∉ expired → alookup n (handleExpiredProbes expired intfName r).1.probing = alookup n r.probing) ∧
+    (n ∉ expired → alookup n (handleExpiredProbes expired intfName r).1.active = alookup n r.active) := by
   unfold handleExpiredProbes
   have := foldl_inv
     (fun (acc : Registry × List Event × List BList) =>
-      KeysNodup acc.1.probing ∧ (n ∉ expired → alookup n acc.1.probing = alookup n r.probing))
-    (expireProbe intfName) expired (r, [], []) ⟨hpn, fun _ => rfl⟩
+      KeysNodup acc.1.probing ∧ (n ∉ expired → alookup n acc.1.probing = alookup n r.probing) ∧
+      (n ∉ expired → alookup n acc.1.active = alookup n r.active))
+    (expireProbe intfName) expired (r, [], []) ⟨hpn, fun _ => rfl, fun _ => rfl⟩
     (fun acc name hname hacc => by
-      rcases expireProbe_probing intfName acc name with h | h
-      · rw [h]; exact hacc
-      · rw [h]
-        refine ⟨hacc.1.aerase _, fun hn => ?_⟩
+      refine ⟨?_, ?_, ?_⟩
+      · rcases expireProbe_probing intfName acc name with h | h
+        · rw [h]; exact hacc.1
+        · rw [h]; exact hacc.1.aerase _
+      · intro hn
         have hne : n ≠ name := fun e => hn (e ▸ hname)
-        rw [alookup_aerase_ne _ _ _ hne]
-        exact hacc.2 hn)
+        rcases expireProbe_probing intfName acc name with h | h
+        · rw [h]; exact hacc.2.1 hn
+        · rw [h, alookup_aerase_ne _ _ _ hne]; exact hacc.2.1 hn
+      · intro hn
+        have hne : n ≠ name := fun e => hn (e ▸ hname)
+        rw [expireProbe_active_other intfName acc name n hne]
+        exact hacc.2.2 hn)
   exact this
 
 /-! ### one probe of one interface -/
 
-/-- the probe of `n` in the registry of interface index `idx` has these times -/
-def ProbeAt (s : State) (idx : Nat) (n : BList) (st nx : Nat) (R : List RR) : Prop :=
-  ∃ p, alookup n (s.registry idx).probing = some p ∧ p.start = st ∧ p.next = nx ∧ ∀ a ∈ R, a ∈ p.records
+/-- what is known to travel with the watched probe: records it holds, services that wait for it,
+    and the `active` entry of its name (which only the end of the probe changes) -/
+structure Cargo where
+  recs : List RR
+  waits : List BList := []
+  act : Option (List RR) := none
+
+/-- what a probe carries itself, with the `active` entry of its name -/
+def Probe.cargo (p : Probe) (A : Option (List RR)) : Cargo := ⟨p.records, p.waiting, A⟩
+
+/-- the probe of `n` in the registry of interface index `idx` has these times and carries at least `R` -/
+def ProbeAt (s : State) (idx : Nat) (n : BList) (st nx : Nat) (R : Cargo) : Prop :=
+  ∃ p, alookup n (s.registry idx).probing = some p ∧ p.start = st ∧ p.next = nx ∧ (∀ a ∈ R.recs, a ∈ p.records) ∧
+    ∀ w ∈ R.waits, w ∈ p.waiting
 
 /-- a probe query for `n` on interface index `idx`: a multicast query packet with the question `ANY n` -/
 def asksFor (idx : Nat) (n : BList) : Out → Bool
@@ -145,75 +175,242 @@ def asksFor (idx : Nat) (n : BList) : Out → Bool
 theorem registry_congr {s s' : State} (h : s'.registries = s.registries) (idx : Nat) : s'.registry idx = s.registry idx := by
   simp [State.registry, h]
 
-/-- `is_probing_done` keeps an existing probe: same times, no record lost -/
-theorem probingDoneReg_keeps (r : Registry) (a : RR) (svc : BList) (t : Nat) (n : BList) (q : Probe)
+/-! ### nothing left to join the watched probe -/
+
+/-- nothing of `a` is left to come to the probe of `n`: `a` is active, or a matching record
+    sits in the probe -/
+def Kept (r : Registry) (n : BList) (a : RR) : Prop :=
+  r.isActive a = true ∨ ∃ p, alookup n r.probing = some p ∧ p.records.any (a.matchesRR ·) = true
+
+/-- `r'` is `r` as far as the records named `n` go: same `active` entry, the probe of `n` (if
+    there is one) still there with at least its records -/
+def Ext (n : BList) (r r' : Registry) : Prop :=
+  alookup n r'.active = alookup n r.active ∧
+  ∀ q, alookup n r.probing = some q → ∃ p, alookup n r'.probing = some p ∧ ∀ x ∈ q.records, x ∈ p.records
+
+theorem Ext.refl (n : BList) (r : Registry) : Ext n r r := ⟨rfl, fun q hq => ⟨q, hq, fun _ h => h⟩⟩
+
+theorem Ext.trans {n : BList} {a b c : Registry} (h1 : Ext n a b) (h2 : Ext n b c) : Ext n a c := by
+  refine ⟨h2.1.trans h1.1, fun q hq => ?_⟩
+  obtain ⟨p, hp, hsub⟩ := h1.2 q hq
+  obtain ⟨p', hp', hsub'⟩ := h2.2 p hp
+  exact ⟨p', hp', fun x hx => hsub' x (hsub x hx)⟩
+
+theorem Kept.ext {r r' : Registry} {n : BList} {a : RR} (h : Kept r n a) (hn : a.getName = n) (he : Ext n r r') : Kept r' n a := by
+  rcases h with h | ⟨q, hq, hany⟩
+  · left
+    unfold Registry.isActive at *
+    rw [hn] at h ⊢
+    rw [he.1]
+    exact h
+  · right
+    obtain ⟨p, hp, hsub⟩ := he.2 q hq
+    refine ⟨p, hp, ?_⟩
+    simp only [List.any_eq_true] at hany ⊢
+    obtain ⟨x, hx, hm⟩ := hany
+    exact ⟨x, hsub x hx, hm⟩
+
+/-- what `send_unsolicited_response` keeps of the service while it walks the interfaces -/
+structure SvcSame (u : Service) (svc : Service) : Prop where
+  uniq : ∀ i r v, uniqueRecords u i r v = uniqueRecords svc i r v
+  addrs : ∀ i v, addrsOn u i v = addrsOn svc i v
+  probe : u.probe = svc.probe
+  full : u.fullname = svc.fullname
+
+theorem SvcSame.refl (svc : Service) : SvcSame svc svc := ⟨fun _ _ _ => rfl, fun _ _ => rfl, rfl, rfl⟩
+
+theorem SvcSame.setStatus {u svc : Service} (h : SvcSame u svc) (k : Nat) (st : Status) : SvcSame (u.setStatus k st) svc :=
+  ⟨fun i r v => h.uniq i r v, fun i v => h.addrs i v, h.probe, h.full⟩
+
+/-- no record of the service is left to come to the probe of `n` on the interfaces of index `idx`:
+    if the service requires probing, each of its unique records named `n` (of a family in
+    which it has an in-subnet address) is active or matched in the probe -/
+def SvcSettled (r : Registry) (intfs : List MyIntf) (idx : Nat) (n : BList) (svc : Service) : Prop :=
+  svc.probe = true → ∀ i ∈ intfs, i.index = idx → ∀ v4, addrsOn svc i v4 ≠ [] →
+    ∀ a ∈ uniqueRecords svc i {} v4, a.getName = n → Kept r n a
+
+theorem SvcSettled.ext {r r' : Registry} {intfs : List MyIntf} {idx : Nat} {n : BList} {svc : Service}
+    (h : SvcSettled r intfs idx n svc) (he : Ext n r r') : SvcSettled r' intfs idx n svc :=
+  fun hp i hi hidx v4 hne a ha hn => (h hp i hi hidx v4 hne a ha hn).ext hn he
+
+theorem SvcSettled.same {r : Registry} {intfs : List MyIntf} {idx : Nat} {n : BList} {svc u : Service}
+    (h : SvcSettled r intfs idx n svc) (hs : SvcSame u svc) : SvcSettled r intfs idx n u :=
+  fun hp i hi hidx v4 hne a ha hn =>
+    h (hs.probe ▸ hp) i hi hidx v4 (by rw [← hs.addrs]; exact hne) a (by rw [← hs.uniq]; exact ha) hn
+
+/-- no record of any registered service is left to come to the probe of `n` on interface index
+    `idx` (true of the states a daemon reaches by registrations while no conflict renames
+    anything: a registration leaves every unique record active or in the probe of its name) -/
+def Settled (s : State) (idx : Nat) (n : BList) : Prop :=
+  ∀ k svc, alookup k s.services = some svc → SvcSettled (s.registry idx) s.intfs idx n svc
+
+theorem Settled.transfer {s s' : State} {idx : Nat} {n : BList} (h : Settled s idx n)
+    (he : Ext n (s.registry idx) (s'.registry idx)) (hi : s'.intfs = s.intfs)
+    (hs : ∀ k svc', alookup k s'.services = some svc' → ∃ svc, alookup k s.services = some svc ∧ SvcSame svc' svc) :
+    Settled s' idx n := by
+  intro k svc' hk
+  obtain ⟨svc, hsvc, hsame⟩ := hs k svc' hk
+  rw [hi]
+  exact ((h k svc hsvc).ext he).same hsame
+
+/-- the services after one entry was stored again with another status -/
+theorem services_aset_status {l : List (BList × Service)} {key : BList} {u0 : Service} (idx : Nat) (x : Status)
+    (h0 : alookup key l = some u0) :
+    ∀ k svc', alookup k (aset key (u0.setStatus idx x) l) = some svc' → ∃ svc, alookup k l = some svc ∧ SvcSame svc' svc := by
+  intro k svc' hk
+  by_cases e : k = key
+  · subst e
+    rw [alookup_aset_self] at hk
+    cases hk
+    exact ⟨u0, h0, (SvcSame.refl u0).setStatus idx x⟩
+  · rw [alookup_aset_ne _ _ _ _ e] at hk
+    exact ⟨svc', hk, SvcSame.refl svc'⟩
+
+/-! ### `is_probing_done` and an existing probe -/
+
+/-- `is_probing_done` keeps an existing probe: no record and no waiting service is lost; and if
+    nothing of the record is left to come to it, its times stay -/
+theorem probingDoneReg_grows (r : Registry) (a : RR) (svc : BList) (t : Nat) (n : BList) (q : Probe)
     (hq : alookup n r.probing = some q) :
-    ∃ p, alookup n (r.probingDoneReg a svc t).probing = some p ∧ p.start = q.start ∧ p.next = q.next ∧
-      ∀ x ∈ q.records, x ∈ p.records := by
+    ∃ p, alookup n (r.probingDoneReg a svc t).probing = some p ∧
+      (∀ x ∈ q.records, x ∈ p.records) ∧ (∀ w ∈ q.waiting, w ∈ p.waiting) ∧
+      ((a.getName = n → Kept r n a) → p.start = q.start ∧ p.next = q.next) := by
   unfold Registry.probingDoneReg
   split
-  · exact ⟨q, hq, rfl, rfl, fun _ h => h⟩
-  · by_cases e : n = a.getName
+  · exact ⟨q, hq, fun _ h => h, fun _ h => h, fun _ => ⟨rfl, rfl⟩⟩
+  · rename_i hina
+    by_cases e : n = a.getName
     · subst e
       simp only [Registry.probeInsert, alookup_aset_self, hq, Option.getD_some]
-      refine ⟨_, rfl, ?_⟩
-      split
-      · exact ⟨rfl, rfl, fun _ h => h⟩
-      · exact ⟨rfl, rfl, fun x h => (mem_insertRR a x _).mpr (Or.inr h)⟩
-    · refine ⟨q, ?_, rfl, rfl, fun _ h => h⟩
+      refine ⟨_, rfl, Probe.join_records_mono q a svc t, ?_, ?_⟩
+      · intro w hw
+        rw [Probe.join_waiting]
+        exact (mem_sinsert svc w _).mpr (Or.inr hw)
+      · intro hk
+        rcases hk trivial with hact | ⟨p, hp, hany⟩
+        · exact absurd hact hina
+        · rw [hq] at hp
+          cases hp
+          rcases Probe.join_times q a svc t with ⟨h1, h2, _⟩ | ⟨_, _, h3⟩
+          · exact ⟨h1, h2⟩
+          · rw [(Probe.restarts_spec h3).1] at hany
+            cases hany
+    · refine ⟨q, ?_, fun _ h => h, fun _ h => h, fun _ => ⟨rfl, rfl⟩⟩
       simp only [Registry.probeInsert]
       rw [alookup_aset_ne _ _ _ _ e]
       exact hq
 
-theorem prepareAnnounceReg_keeps (s : Service) (i : MyIntf) (r : Registry) (v4 : Bool) (now j : Nat) (n : BList) (q : Probe)
+theorem prepareAnnounceReg_grows (s : Service) (i : MyIntf) (r : Registry) (v4 : Bool) (now j : Nat) (n : BList) (q : Probe)
     (hq : alookup n r.probing = some q) :
-    ∃ p, alookup n (prepareAnnounceReg s i r v4 now j).probing = some p ∧ p.start = q.start ∧ p.next = q.next ∧
-      ∀ x ∈ q.records, x ∈ p.records := by
+    ∃ p, alookup n (prepareAnnounceReg s i r v4 now j).probing = some p ∧
+      (∀ x ∈ q.records, x ∈ p.records) ∧ (∀ w ∈ q.waiting, w ∈ p.waiting) ∧
+      ((s.probe = true → addrsOn s i v4 ≠ [] → ∀ a ∈ uniqueRecords s i r v4, a.getName = n → Kept r n a) →
+        p.start = q.start ∧ p.next = q.next) := by
   unfold prepareAnnounceReg
   split
-  · exact ⟨q, hq, rfl, rfl, fun _ h => h⟩
-  · split
-    · exact ⟨q, hq, rfl, rfl, fun _ h => h⟩
-    · exact foldl_inv (fun (b : Registry) => ∃ p, alookup n b.probing = some p ∧ p.start = q.start ∧ p.next = q.next ∧
-          ∀ x ∈ q.records, x ∈ p.records) _ _ r ⟨q, hq, rfl, rfl, fun _ h => h⟩
-        (fun b a _ ⟨p, hp, h1, h2, h3⟩ => by
-          obtain ⟨p', hp', h1', h2', h3'⟩ := probingDoneReg_keeps b a s.fullname (now + j) n p hp
-          exact ⟨p', hp', h1'.trans h1, h2'.trans h2, fun x hx => h3' x (h3 x hx)⟩)
+  · exact ⟨q, hq, fun _ h => h, fun _ h => h, fun _ => ⟨rfl, rfl⟩⟩
+  · rename_i hne
+    split
+    · exact ⟨q, hq, fun _ h => h, fun _ h => h, fun _ => ⟨rfl, rfl⟩⟩
+    · rename_i hpr
+      have hprobe : s.probe = true := by simpa using hpr
+      have := foldl_inv (fun (b : Registry) => b.active = r.active ∧ ∃ p, alookup n b.probing = some p ∧
+          (∀ x ∈ q.records, x ∈ p.records) ∧ (∀ w ∈ q.waiting, w ∈ p.waiting) ∧
+          ((∀ a ∈ uniqueRecords s i r v4, a.getName = n → Kept r n a) → p.start = q.start ∧ p.next = q.next))
+        (fun r a => r.probingDoneReg a s.fullname (now + j)) (uniqueRecords s i r v4) r
+        ⟨rfl, q, hq, fun _ h => h, fun _ h => h, fun _ => ⟨rfl, rfl⟩⟩
+        (fun b a ha ⟨hact, p, hp, h3, h4, h5⟩ => by
+          obtain ⟨p', hp', h3', h4', h5'⟩ := probingDoneReg_grows b a s.fullname (now + j) n p hp
+          refine ⟨(probingDoneReg_active b a _ _).trans hact, p', hp', fun x hx => h3' x (h3 x hx), fun w hw => h4' w (h4 w hw), ?_⟩
+          intro hk
+          have hkb : a.getName = n → Kept b n a := by
+            intro hn
+            exact (hk a ha hn).ext hn ⟨by rw [hact], fun q' hq' => by
+              rw [hq] at hq'; cases hq'; exact ⟨p, hp, h3⟩⟩
+          exact ⟨(h5' hkb).1.trans (h5 hk).1, (h5' hkb).2.trans (h5 hk).2⟩)
+      obtain ⟨_, p, hp, h3, h4, h5⟩ := this
+      exact ⟨p, hp, h3, h4, fun hk => h5 (hk hprobe hne)⟩
 
-/-- the two calls of `announce_service_on_intf` keep an existing probe: times and records -/
-theorem announce_pair_probe (svc : Service) (i : MyIntf) (r0 : Registry) (now j : Nat) (n : BList) (st nx : Nat) (R : List RR)
-    (h : ∃ p, alookup n r0.probing = some p ∧ p.start = st ∧ p.next = nx ∧ ∀ a ∈ R, a ∈ p.records) :
+theorem prepareAnnounceReg_ext (s : Service) (i : MyIntf) (r : Registry) (v4 : Bool) (now j : Nat) (n : BList) :
+    Ext n r (prepareAnnounceReg s i r v4 now j) := by
+  refine ⟨by rw [(prepareAnnounceReg_active s i r v4 now j).1], fun q hq => ?_⟩
+  obtain ⟨p, hp, h3, _, _⟩ := prepareAnnounceReg_grows s i r v4 now j n q hq
+  exact ⟨p, hp, h3⟩
+
+theorem announce_pair_ext (svc : Service) (i : MyIntf) (r0 : Registry) (now j : Nat) (n : BList) :
+    Ext n r0 (prepareAnnounceReg svc i (prepareAnnounceReg svc i r0 true now j) false now j) :=
+  (prepareAnnounceReg_ext svc i r0 true now j n).trans (prepareAnnounceReg_ext svc i _ false now j n)
+
+/-- the two calls of `announce_service_on_intf` keep an existing probe - times and records - when
+    no record of the service is left to come to it -/
+theorem announce_pair_probe (svc : Service) (i : MyIntf) (r0 : Registry) (now j : Nat) (n : BList) (st nx : Nat) (R : Cargo)
+    (h : ∃ p, alookup n r0.probing = some p ∧ p.start = st ∧ p.next = nx ∧ (∀ a ∈ R.recs, a ∈ p.records) ∧
+      ∀ w ∈ R.waits, w ∈ p.waiting)
+    (hk : svc.probe = true → ∀ v4, addrsOn svc i v4 ≠ [] → ∀ a ∈ uniqueRecords svc i r0 v4, a.getName = n → Kept r0 n a) :
     ∃ p, alookup n (prepareAnnounceReg svc i (prepareAnnounceReg svc i r0 true now j) false now j).probing = some p ∧
-      p.start = st ∧ p.next = nx ∧ ∀ a ∈ R, a ∈ p.records := by
-  obtain ⟨p, hp, h1, h2, h3⟩ := h
-  obtain ⟨p1, hp1, a1, a2, a3⟩ := prepareAnnounceReg_keeps svc i r0 true now j n p hp
-  obtain ⟨p2, hp2, b1, b2, b3⟩ := prepareAnnounceReg_keeps svc i (prepareAnnounceReg svc i r0 true now j) false now j n p1 hp1
-  exact ⟨p2, hp2, b1.trans (a1.trans h1), b2.trans (a2.trans h2), fun a ha => b3 a (a3 a (h3 a ha))⟩
+      p.start = st ∧ p.next = nx ∧ (∀ a ∈ R.recs, a ∈ p.records) ∧ ∀ w ∈ R.waits, w ∈ p.waiting := by
+  obtain ⟨p, hp, h1, h2, h3, h4⟩ := h
+  obtain ⟨p1, hp1, a3, a4, a5⟩ := prepareAnnounceReg_grows svc i r0 true now j n p hp
+  obtain ⟨p2, hp2, b3, b4, b5⟩ := prepareAnnounceReg_grows svc i (prepareAnnounceReg svc i r0 true now j) false now j n p1 hp1
+  have ha := a5 (fun hpr hne => hk hpr true hne)
+  have hb := b5 (fun hpr hne a ha hn => by
+    rw [uniqueRecords_congr (prepareAnnounceReg_active svc i r0 true now j).2] at ha
+    exact (hk hpr false hne a ha hn).ext hn (prepareAnnounceReg_ext svc i r0 true now j n))
+  exact ⟨p2, hp2, hb.1.trans (ha.1.trans h1), hb.2.trans (ha.2.trans h2), fun a ha => b3 a (a3 a (h3 a ha)),
+    fun w hw => b4 w (a4 w (h4 w hw))⟩
 
 theorem announce_pair_pn (svc : Service) (i : MyIntf) {r0 : Registry} (h : KeysNodup r0.probing) (now j : Nat) :
     KeysNodup (prepareAnnounceReg svc i (prepareAnnounceReg svc i r0 true now j) false now j).probing :=
   prepareAnnounceReg_pn (prepareAnnounceReg_pn h svc i true now j) svc i false now j
 
 /-- what is watched across the steps of an idle iteration: the probe's times, unique keys and
-    no renames in that registry, the interfaces -/
-structure Watch (s : State) (idx : Nat) (n : BList) (st nx : Nat) (R : List RR) : Prop where
+    no renames in that registry, the `active` entry of the name, and that no record of a
+    registered service is left to come to the probe (it would start the probe over) -/
+structure Watch (s : State) (idx : Nat) (n : BList) (st nx : Nat) (R : Cargo) : Prop where
   probe : ProbeAt s idx n st nx R
   pn : KeysNodup (s.registry idx).probing
   noRen : NoRen (s.registry idx)
+  act : alookup n (s.registry idx).active = R.act
+  settled : Settled s idx n
 
-theorem Watch.setRegistry_other {s : State} {idx : Nat} {n : BList} {st nx : Nat} {R : List RR} (h : Watch s idx n st nx R)
-    (k : Nat) (r : Registry) (hk : k ≠ idx) : Watch (s.setRegistry k r) idx n st nx R := by
-  have e : (s.setRegistry k r).registry idx = s.registry idx := registry_setRegistry_ne s k idx r (Ne.symm hk)
-  exact ⟨by unfold ProbeAt; rw [e]; exact h.probe, by rw [e]; exact h.pn, by rw [e]; exact h.noRen⟩
+/-- the registry of `idx` the same in `probing`, `active`, `name_changes`; the same interfaces;
+    the services up to their status -/
+theorem Watch.of_parts {s s' : State} {idx : Nat} {n : BList} {st nx : Nat} {R : Cargo} (h : Watch s idx n st nx R)
+    (hp : (s'.registry idx).probing = (s.registry idx).probing) (ha : (s'.registry idx).active = (s.registry idx).active)
+    (hn : (s'.registry idx).nameChanges = (s.registry idx).nameChanges) (hi : s'.intfs = s.intfs)
+    (hs : ∀ k svc', alookup k s'.services = some svc' → ∃ svc, alookup k s.services = some svc ∧ SvcSame svc' svc) :
+    Watch s' idx n st nx R :=
+  ⟨by unfold ProbeAt; rw [hp]; exact h.probe, by rw [hp]; exact h.pn,
+    ⟨hn.trans h.noRen.1, fun k p hm => h.noRen.2 k p (hp ▸ hm)⟩, by rw [ha]; exact h.act,
+    h.settled.transfer ⟨by rw [ha], fun q hq => ⟨q, by rw [hp]; exact hq, fun _ hx => hx⟩⟩ hi hs⟩
 
-theorem Watch.congr {s s' : State} {idx : Nat} {n : BList} {st nx : Nat} {R : List RR} (h : Watch s idx n st nx R)
-    (hr : s'.registries = s.registries) : Watch s' idx n st nx R := by
-  have e := registry_congr hr idx
-  exact ⟨by unfold ProbeAt; rw [e]; exact h.probe, by rw [e]; exact h.pn, by rw [e]; exact h.noRen⟩
+/-- the same registry of `idx`, the same interfaces, the services up to their status -/
+theorem Watch.transfer {s s' : State} {idx : Nat} {n : BList} {st nx : Nat} {R : Cargo} (h : Watch s idx n st nx R)
+    (e : s'.registry idx = s.registry idx) (hi : s'.intfs = s.intfs)
+    (hs : ∀ k svc', alookup k s'.services = some svc' → ∃ svc, alookup k s.services = some svc ∧ SvcSame svc' svc) :
+    Watch s' idx n st nx R :=
+  h.of_parts (by rw [e]) (by rw [e]) (by rw [e]) hi hs
 
-/-- announcing some service on some interface keeps the watched probe -/
-theorem Watch.announce_pair {s : State} {idx : Nat} {n : BList} {st nx : Nat} {R : List RR} (h : Watch s idx n st nx R)
-    (svc : Service) (i : MyIntf) (now j : Nat) :
+/-- arming the `new_timers` of some interface keeps the watched probe -/
+theorem Watch.drain {acc : State × List Out} {idx : Nat} {n : BList} {st nx : Nat} {R : Cargo} (h : Watch acc.1 idx n st nx R)
+    (k : Nat) : Watch (drainNewTimers k acc).1 idx n st nx R := by
+  by_cases e : idx = k
+  · subst e
+    have er := drainNewTimers_registry_self idx acc
+    exact h.of_parts (by rw [er]) (by rw [er]) (by rw [er]) rfl (fun _ svc' hk => ⟨svc', hk, SvcSame.refl _⟩)
+  · exact h.transfer (drainNewTimers_registry_ne k idx acc e) rfl (fun _ svc' hk => ⟨svc', hk, SvcSame.refl _⟩)
+
+theorem Watch.setRegistry_other {s : State} {idx : Nat} {n : BList} {st nx : Nat} {R : Cargo} (h : Watch s idx n st nx R)
+    (k : Nat) (r : Registry) (hk : k ≠ idx) : Watch (s.setRegistry k r) idx n st nx R :=
+  h.transfer (registry_setRegistry_ne s k idx r (Ne.symm hk)) rfl (fun _ svc' hk => ⟨svc', hk, SvcSame.refl _⟩)
+
+theorem Watch.congr {s s' : State} {idx : Nat} {n : BList} {st nx : Nat} {R : Cargo} (h : Watch s idx n st nx R)
+    (hr : s'.registries = s.registries) (hs : s'.services = s.services) (hi : s'.intfs = s.intfs) : Watch s' idx n st nx R :=
+  h.transfer (registry_congr hr idx) hi (fun _ svc' hk => ⟨svc', hs ▸ hk, SvcSame.refl _⟩)
+
+/-- announcing a registered service on an interface of the daemon keeps the watched probe -/
+theorem Watch.announce_pair {s : State} {idx : Nat} {n : BList} {st nx : Nat} {R : Cargo} (h : Watch s idx n st nx R)
+    (svc : Service) (i : MyIntf) (now j : Nat) {k : BList} (hsvc : alookup k s.services = some svc) (hi : i ∈ s.intfs) :
     Watch (s.setRegistry i.index
       (prepareAnnounceReg svc i (prepareAnnounceReg svc i (s.registry i.index) true now j) false now j)) idx n st nx R := by
   by_cases e : i.index = idx
@@ -221,12 +418,21 @@ theorem Watch.announce_pair {s : State} {idx : Nat} {n : BList} {st nx : Nat} {R
         (prepareAnnounceReg svc i (prepareAnnounceReg svc i (s.registry i.index) true now j) false now j)).registry idx =
         prepareAnnounceReg svc i (prepareAnnounceReg svc i (s.registry i.index) true now j) false now j := by
       rw [← e]; exact registry_setRegistry_self _ _ _
-    refine ⟨?_, ?_, ?_⟩
+    refine ⟨?_, ?_, ?_, ?_, ?_⟩
     · unfold ProbeAt
       rw [er]
-      exact announce_pair_probe svc i _ now j n st nx R (by rw [e]; exact h.probe)
+      refine announce_pair_probe svc i _ now j n st nx R (by rw [e]; exact h.probe) ?_
+      intro hpr v4 hne a ha hn
+      rw [e]
+      rw [e, uniqueRecords_congr (r := {}) h.noRen.1] at ha
+      exact h.settled k svc hsvc hpr i hi e v4 hne a ha hn
     · rw [er]; exact announce_pair_pn svc i (by rw [e]; exact h.pn) now j
     · rw [er]; exact announce_pair_noRen svc i (by rw [e]; exact h.noRen) now j
+    · rw [er, (prepareAnnounceReg_active svc i _ false now j).1, (prepareAnnounceReg_active svc i _ true now j).1, e]
+      exact h.act
+    · refine h.settled.transfer ?_ rfl (fun _ svc' hk => ⟨svc', hk, SvcSame.refl _⟩)
+      rw [er, ← e]
+      exact announce_pair_ext svc i _ now j n
   · exact h.setRegistry_other _ _ e
 
 /-! ### outputs that are not probe queries -/
@@ -260,17 +466,18 @@ theorem notify_not_asks (s : State) (e : Event) (idx : Nat) (n : BList) : ∀ o 
 
 /-- `wakeService` keeps the watched probe -/
 theorem wakeService_keeps (now j : Nat) (i : MyIntf) (acc : State × List Out) (name : BList) (idx : Nat) (n : BList)
-    (st nx : Nat) (R : List RR) (h : Watch acc.1 idx n st nx R) : Watch (wakeService now j i acc name).1 idx n st nx R := by
+    (st nx : Nat) (R : Cargo) (h : Watch acc.1 idx n st nx R) (hi : i ∈ acc.1.intfs) :
+    Watch (wakeService now j i acc name).1 idx n st nx R := by
   unfold wakeService
   simp only []
   split
   · exact h
-  · rename_i svc _
+  · rename_i svc hsvc
     split
     · exact h
-    · have hw := h.announce_pair svc i now j
+    · have hw := h.announce_pair svc i now j hsvc hi
       split
-      · exact hw.congr rfl
+      · exact hw.transfer rfl rfl (services_aset_status i.index .announced hsvc)
       · exact hw
 
 /-- every output of `wakeService` is an earlier output or not a probe query -/
@@ -325,10 +532,11 @@ theorem foldl_wake_mono (now j : Nat) (i : MyIntf) (names : List BList) (acc : S
   foldl_inv (fun a => o ∈ a.2) _ _ _ h (fun a nm _ ha => wakeService_mono now j i a nm o ha)
 
 theorem foldl_wake_keeps (now j : Nat) (i : MyIntf) (names : List BList) (acc : State × List Out) (idx : Nat) (n : BList)
-    (st nx : Nat) (R : List RR) (h : Watch acc.1 idx n st nx R) :
+    (st nx : Nat) (R : Cargo) (h : Watch acc.1 idx n st nx R) (hi : i ∈ acc.1.intfs) :
     Watch (names.foldl (wakeService now j i) acc).1 idx n st nx R :=
-  foldl_inv (fun (a : State × List Out) => Watch a.1 idx n st nx R) _ _ _ h
-    (fun a nm _ ha => wakeService_keeps now j i a nm idx n st nx R ha)
+  (foldl_inv (fun (a : State × List Out) => Watch a.1 idx n st nx R ∧ a.1.intfs = acc.1.intfs) _ _ _ ⟨h, rfl⟩
+    (fun a nm _ ha => ⟨wakeService_keeps now j i a nm idx n st nx R ha.1 (ha.2 ▸ hi),
+      (wakeService_frame now j i a nm).1.trans ha.2⟩)).1
 
 theorem foldl_wake_outs (now j : Nat) (i : MyIntf) (names : List BList) (acc : State × List Out) (idx : Nat) (n : BList) :
     ∀ o ∈ (names.foldl (wakeService now j i) acc).2, o ∈ acc.2 ∨ asksFor idx n o = false :=
@@ -341,7 +549,8 @@ theorem probingOnIntf_mono (now j : Nat) (acc : State × List Out) (i : MyIntf) 
   simp only []
   split
   · exact h
-  · apply foldl_wake_mono
+  · rw [drainNewTimers_snd]
+    apply foldl_wake_mono
     simp only [List.mem_append]
     exact Or.inl (Or.inl h)
 
@@ -377,13 +586,16 @@ theorem events_not_ask (s : State) (evs : List Event) (idx : Nat) (n : BList) :
 
 /-- the step of `probing_handler` for ANOTHER interface index leaves the watched probe alone -/
 theorem probingOnIntf_other_keeps (now j : Nat) (acc : State × List Out) (i' : MyIntf) (idx : Nat) (n : BList) (st nx : Nat)
-    (R : List RR) (hne : i'.index ≠ idx) (h : Watch acc.1 idx n st nx R) : Watch (probingOnIntf now j acc i').1 idx n st nx R := by
+    (R : Cargo) (hne : i'.index ≠ idx) (h : Watch acc.1 idx n st nx R) (hi : i' ∈ acc.1.intfs) :
+    Watch (probingOnIntf now j acc i').1 idx n st nx R := by
   unfold probingOnIntf
   simp only []
   split
   · exact h
-  · apply foldl_wake_keeps
-    exact (h.setRegistry_other i'.index _ hne).congr rfl
+  · apply Watch.drain
+    apply foldl_wake_keeps
+    · exact (h.setRegistry_other i'.index _ hne).congr rfl rfl rfl
+    · exact hi
 
 /-- ... and sends no probe query on the watched interface -/
 theorem probingOnIntf_other_outs (now j : Nat) (acc : State × List Out) (i' : MyIntf) (idx : Nat) (n : BList)
@@ -408,7 +620,8 @@ theorem probe_survives {r : Registry} {n : BList} {p : Probe} (now : Nat) (intfN
     (hl : alookup n r.probing = some p) (hpn : KeysNodup r.probing) (hnr : NoRen r) (hact : p.action now ≠ .expire) :
     alookup n (handleExpiredProbes (checkProbing r now).expired intfName (checkProbing r now).reg).1.probing = some (p.step now) ∧
     KeysNodup (handleExpiredProbes (checkProbing r now).expired intfName (checkProbing r now).reg).1.probing ∧
-    NoRen (handleExpiredProbes (checkProbing r now).expired intfName (checkProbing r now).reg).1 := by
+    NoRen (handleExpiredProbes (checkProbing r now).expired intfName (checkProbing r now).reg).1 ∧
+    alookup n (handleExpiredProbes (checkProbing r now).expired intfName (checkProbing r now).reg).1.active = alookup n r.active := by
   have hnotexp : n ∉ (checkProbing r now).expired := by
     intro hin
     simp only [checkProbing, List.mem_map, List.mem_filter] at hin
@@ -420,9 +633,9 @@ theorem probe_survives {r : Registry} {n : BList} {p : Probe} (now : Nat) (intfN
     cases this
     exact hact (by simpa using ha)
   have hf := handleExpiredProbes_frame (checkProbing r now).expired intfName (checkProbing r now).reg n (checkProbing_pn hpn now)
-  refine ⟨?_, hf.1, (handleExpiredProbes_spec _ intfName _ (checkProbing_noRen hnr now)).1⟩
+  refine ⟨?_, hf.1, (handleExpiredProbes_spec _ intfName _ (checkProbing_noRen hnr now)).1, hf.2.2 hnotexp⟩
   have hm := alookup_mapVal n (fun _ p => Probe.step p now) r.probing
-  rw [hf.2 hnotexp, checkProbing_probing, hm, hl]
+  rw [hf.2.1 hnotexp, checkProbing_probing, hm, hl]
   rfl
 
 /-- is `(n, ANY)` among the questions of `check_probing`? exactly when the probe of `n` sends -/
@@ -449,8 +662,10 @@ theorem probe_step_times (p : Probe) (now : Nat) :
     probe's `next_send` moves 250 ms ahead then -/
 theorem probingOnIntf_self (now j : Nat) (acc : State × List Out) (i : MyIntf) (n : BList) (p : Probe)
     (hl : alookup n (acc.1.registry i.index).probing = some p) (hpn : KeysNodup (acc.1.registry i.index).probing)
-    (hnr : NoRen (acc.1.registry i.index)) (hact : p.action now ≠ .expire) :
-    Watch (probingOnIntf now j acc i).1 i.index n p.start (if p.action now = .send then now + 250 else p.next) p.records ∧
+    (hnr : NoRen (acc.1.registry i.index)) (hact : p.action now ≠ .expire)
+    (hset : Settled acc.1 i.index n) (hi : i ∈ acc.1.intfs) :
+    Watch (probingOnIntf now j acc i).1 i.index n p.start (if p.action now = .send then now + 250 else p.next)
+      (p.cargo (alookup n (acc.1.registry i.index).active)) ∧
     (p.action now = .idle → ∀ o ∈ (probingOnIntf now j acc i).2, o ∈ acc.2 ∨ asksFor i.index n o = false) ∧
     (p.action now = .send → ∀ v4, i.hasFamily v4 = true → ∃ pkt, Out.send i.index v4 none pkt ∈ (probingOnIntf now j acc i).2 ∧
       pkt.flags = 0 ∧ (n, TYPE_ANY) ∈ pkt.questions ∧ ∀ a ∈ p.records, a ∈ pkt.authorities) := by
@@ -461,23 +676,29 @@ theorem probingOnIntf_self (now j : Nat) (acc : State × List Out) (i : MyIntf) 
     simp [alookup] at hl
   | some r =>
     have hr : acc.1.registry i.index = r := registry_of_lookup hreg
-    rw [hr] at hl hpn hnr
-    obtain ⟨hs1, hs2, hs3⟩ := probe_survives now i.name hl hpn hnr hact
+    rw [hr] at hl hpn hnr ⊢
+    obtain ⟨hs1, hs2, hs3, hs4⟩ := probe_survives now i.name hl hpn hnr hact
+    have hext : Ext n r (handleExpiredProbes (checkProbing r now).expired i.name (checkProbing r now).reg).1 :=
+      ⟨hs4, fun q hq => by
+        rw [hl] at hq; cases hq
+        exact ⟨_, hs1, fun x hx => by rw [Probe.step_records]; exact hx⟩⟩
     obtain ⟨ht1, ht2⟩ := probe_step_times p now
     have hw : Watch ({ (acc.1.setRegistry i.index
         (handleExpiredProbes (checkProbing r now).expired i.name (checkProbing r now).reg).1) with
         timers := acc.1.timers ++ (checkProbing r now).timers } : State) i.index n p.start
-        (if p.action now = .send then now + 250 else p.next) p.records := by
+        (if p.action now = .send then now + 250 else p.next) (p.cargo (alookup n r.active)) := by
       have e : ({ (acc.1.setRegistry i.index
           (handleExpiredProbes (checkProbing r now).expired i.name (checkProbing r now).reg).1) with
           timers := acc.1.timers ++ (checkProbing r now).timers } : State).registry i.index =
           (handleExpiredProbes (checkProbing r now).expired i.name (checkProbing r now).reg).1 :=
         registry_setRegistry_self _ _ _
-      exact ⟨⟨p.step now, by rw [e]; exact hs1, ht1, ht2, fun a h => by rw [Probe.step_records]; exact h⟩,
-        by rw [e]; exact hs2, by rw [e]; exact hs3⟩
+      exact ⟨⟨p.step now, by rw [e]; exact hs1, ht1, ht2, fun a h => by rw [Probe.step_records]; exact h,
+          fun w h => by unfold Probe.step; split <;> exact h⟩,
+        by rw [e]; exact hs2, by rw [e]; exact hs3, by rw [e]; exact hs4,
+        hset.transfer (by rw [e, hr]; exact hext) rfl (fun _ svc' hk => ⟨svc', hk, SvcSame.refl _⟩)⟩
     unfold probingOnIntf
     simp only [hreg]
-    refine ⟨foldl_wake_keeps now j i _ (_, _) i.index n _ _ _ hw, ?_, ?_⟩
+    refine ⟨Watch.drain (foldl_wake_keeps now j i _ (_, _) i.index n _ _ _ hw hi) _, ?_, ?_⟩
     · intro hidle o ho
       have hq : (n, TYPE_ANY) ∉ (checkProbing r now).questions := by
         rw [checkProbing_asks_iff now hl hpn, hidle]; simp
@@ -508,10 +729,6 @@ theorem probingOnIntf_self (now j : Nat) (acc : State × List Out) (i : MyIntf) 
 
 /-! ### `probing_handler` as a whole -/
 
-theorem Watch.of_registry_eq {s s' : State} {idx : Nat} {n : BList} {st nx : Nat} {R : List RR} (h : Watch s idx n st nx R)
-    (e : s'.registry idx = s.registry idx) : Watch s' idx n st nx R :=
-  ⟨by unfold ProbeAt; rw [e]; exact h.probe, by rw [e]; exact h.pn, by rw [e]; exact h.noRen⟩
-
 theorem wakeService_registry_other (now j : Nat) (i : MyIntf) (acc : State × List Out) (name : BList) (idx : Nat)
     (h : i.index ≠ idx) : (wakeService now j i acc name).1.registry idx = acc.1.registry idx := by
   unfold wakeService
@@ -531,6 +748,7 @@ theorem probingOnIntf_registry_other (now j : Nat) (acc : State × List Out) (i 
   split
   · rfl
   · rename_i r _
+    rw [drainNewTimers_registry_ne i.index idx _ (Ne.symm h)]
     refine foldl_inv (fun (a : State × List Out) => a.1.registry idx = acc.1.registry idx) (wakeService now j i) _ (_, _) ?_ ?_
     · exact (registry_congr (s := acc.1.setRegistry i.index _) rfl idx).trans (registry_setRegistry_ne _ _ _ _ (Ne.symm h))
     · intro a nm _ ha
@@ -552,8 +770,9 @@ theorem probingHandler_frame (s : State) (now j : Nat) :
     moves 250 ms ahead; nothing else about the probe changes -/
 theorem probingHandler_probe (s : State) (now j : Nat) (i : MyIntf) (l1 l2 : List MyIntf) (hi : IntfsOk s i l1 l2)
     (n : BList) (p : Probe) (hl : alookup n (s.registry i.index).probing = some p)
-    (hpn : KeysNodup (s.registry i.index).probing) (hnr : NoRen (s.registry i.index)) (hact : p.action now ≠ .expire) :
-    Watch (probingHandler s now j).1 i.index n p.start (if p.action now = .send then now + 250 else p.next) p.records ∧
+    {st nx : Nat} {R : Cargo} (hw : Watch s i.index n st nx R) (hact : p.action now ≠ .expire) :
+    Watch (probingHandler s now j).1 i.index n p.start (if p.action now = .send then now + 250 else p.next)
+      (p.cargo (alookup n (s.registry i.index).active)) ∧
     (p.action now = .idle → ∀ o ∈ (probingHandler s now j).2, asksFor i.index n o = false) ∧
     (p.action now = .send → ∀ v4, i.hasFamily v4 = true → ∃ pkt, Out.send i.index v4 none pkt ∈ (probingHandler s now j).2 ∧
       pkt.flags = 0 ∧ (n, TYPE_ANY) ∈ pkt.questions ∧ ∀ a ∈ p.records, a ∈ pkt.authorities) := by
@@ -561,29 +780,39 @@ theorem probingHandler_probe (s : State) (now j : Nat) (i : MyIntf) (l1 l2 : Lis
   rw [hi.split, List.foldl_append, List.foldl_cons]
   -- phase 1: the interfaces before `i`
   have h1 := foldl_inv (fun (a : State × List Out) => a.1.registry i.index = s.registry i.index ∧
-      (∀ o ∈ a.2, asksFor i.index n o = false))
-    (probingOnIntf now j) l1 (s, []) ⟨rfl, fun _ h => by simp at h⟩
+      (∀ o ∈ a.2, asksFor i.index n o = false) ∧ Watch a.1 i.index n st nx R ∧ a.1.intfs = s.intfs)
+    (probingOnIntf now j) l1 (s, []) ⟨rfl, fun _ h => by simp at h, hw, rfl⟩
     (fun a i' hi' ha => by
       have hne : i'.index ≠ i.index := hi.other i' (List.mem_append.mpr (Or.inl hi'))
+      have hmem : i' ∈ a.1.intfs := by rw [ha.2.2.2, hi.split]; exact List.mem_append.mpr (Or.inl hi')
       exact ⟨(probingOnIntf_registry_other now j a i' i.index hne).trans ha.1,
-        fun o ho => (probingOnIntf_other_outs now j a i' i.index n hne o ho).elim (ha.2 o) id⟩)
-  obtain ⟨hr1, ho1⟩ := h1
+        fun o ho => (probingOnIntf_other_outs now j a i' i.index n hne o ho).elim (ha.2.1 o) id,
+        probingOnIntf_other_keeps now j a i' i.index n _ _ _ hne ha.2.2.1 hmem,
+        (probingOnIntf_frame now j a i').1.trans ha.2.2.2⟩)
+  obtain ⟨hr1, ho1, hw1, hintfs1⟩ := h1
   -- phase 2: `i` itself
   obtain ⟨hw2, hidle2, hsend2⟩ := probingOnIntf_self now j (l1.foldl (probingOnIntf now j) (s, [])) i n p
-    (by rw [hr1]; exact hl) (by rw [hr1]; exact hpn) (by rw [hr1]; exact hnr) hact
+    (by rw [hr1]; exact hl) hw1.pn hw1.noRen hact hw1.settled (by rw [hintfs1, hi.split]; simp)
+  rw [hr1] at hw2
+  have hintfs2 : (probingOnIntf now j (l1.foldl (probingOnIntf now j) (s, [])) i).1.intfs = s.intfs :=
+    (probingOnIntf_frame now j _ i).1.trans hintfs1
   -- phase 3: the interfaces after `i`
   have h3 := foldl_inv (fun (a : State × List Out) =>
-      Watch a.1 i.index n p.start (if p.action now = .send then now + 250 else p.next) p.records ∧
+      Watch a.1 i.index n p.start (if p.action now = .send then now + 250 else p.next)
+        (p.cargo (alookup n (s.registry i.index).active)) ∧
       (∀ o ∈ a.2, o ∈ (probingOnIntf now j (l1.foldl (probingOnIntf now j) (s, [])) i).2 ∨ asksFor i.index n o = false) ∧
-      (∀ o ∈ (probingOnIntf now j (l1.foldl (probingOnIntf now j) (s, [])) i).2, o ∈ a.2))
+      (∀ o ∈ (probingOnIntf now j (l1.foldl (probingOnIntf now j) (s, [])) i).2, o ∈ a.2) ∧ a.1.intfs = s.intfs)
     (probingOnIntf now j) l2 (probingOnIntf now j (l1.foldl (probingOnIntf now j) (s, [])) i)
-    ⟨hw2, fun _ h => Or.inl h, fun _ h => h⟩
+    ⟨hw2, fun _ h => Or.inl h, fun _ h => h, hintfs2⟩
     (fun a i' hi' ha => by
       have hne : i'.index ≠ i.index := hi.other i' (List.mem_append.mpr (Or.inr hi'))
-      exact ⟨probingOnIntf_other_keeps now j a i' i.index n _ _ _ hne ha.1,
+      have hmem : i' ∈ a.1.intfs := by
+        rw [ha.2.2.2, hi.split]; exact List.mem_append.mpr (Or.inr (List.mem_cons_of_mem _ hi'))
+      exact ⟨probingOnIntf_other_keeps now j a i' i.index n _ _ _ hne ha.1 hmem,
         fun o ho => (probingOnIntf_other_outs now j a i' i.index n hne o ho).elim (ha.2.1 o) Or.inr,
-        fun o ho => probingOnIntf_mono now j a i' o (ha.2.2 o ho)⟩)
-  obtain ⟨hw3, hout3, hmono3⟩ := h3
+        fun o ho => probingOnIntf_mono now j a i' o (ha.2.2.1 o ho),
+        (probingOnIntf_frame now j a i').1.trans ha.2.2.2⟩)
+  obtain ⟨hw3, hout3, hmono3, _⟩ := h3
   refine ⟨hw3, ?_, ?_⟩
   · intro hidle o ho
     rcases hout3 o ho with h | h
@@ -677,6 +906,10 @@ theorem probingOnIntf_self_end (now j : Nat) (acc : State × List Out) (i : MyIn
             timers := acc.1.timers ++ (checkProbing r now).timers },
           acc.2 ++ probeSends i (checkProbing r now) ++
             (handleExpiredProbes (checkProbing r now).expired i.name (checkProbing r now).reg).2.1.flatMap (notify acc.1))
+      rw [drainNewTimers_registry_self]
+      show Registry.isActive _ a = true
+      have hdr : ∀ (r : Registry), ({ r with newTimers := [] } : Registry).isActive a = r.isActive a := fun _ => rfl
+      rw [hdr]
       apply (hle.2 i.index).2 a
       have e : ({ (acc.1.setRegistry i.index
           (handleExpiredProbes (checkProbing r now).expired i.name (checkProbing r now).reg).1) with
@@ -733,7 +966,7 @@ theorem probingHandler_probe_end (s : State) (now j : Nat) (i : MyIntf) (l1 l2 :
 def RerunsOk (s : State) : Prop := ∀ t p k v, ReRun.unregisterResend t p k v ∈ s.reruns → p.flags ≠ 0
 
 theorem execRegisterResend_keeps (s : State) (now j : Nat) (fullname : BList) (ifIdx : Nat) (idx : Nat) (n : BList)
-    (st nx : Nat) (R : List RR) (h : Watch s idx n st nx R) :
+    (st nx : Nat) (R : Cargo) (h : Watch s idx n st nx R) :
     Watch (execRegisterResend s now j fullname ifIdx).1 idx n st nx R ∧
     (∀ o ∈ (execRegisterResend s now j fullname ifIdx).2, asksFor idx n o = false) ∧
     (execRegisterResend s now j fullname ifIdx).1.intfs = s.intfs ∧
@@ -745,11 +978,11 @@ theorem execRegisterResend_keeps (s : State) (now j : Nat) (fullname : BList) (i
     obtain ⟨_, hidx⟩ := find_index_spec hi
     subst hidx
     have hr : s.registry i.index = r0 := registry_of_lookup hr0
-    have hw := h.announce_pair svc i now j
+    have hw := h.announce_pair svc i now j hsvc (List.mem_of_find?_eq_some hi)
     rw [hr] at hw
     simp only []
     split
-    · refine ⟨hw.congr rfl, ?_, rfl, rfl, rfl⟩
+    · refine ⟨hw.transfer rfl rfl (services_aset_status i.index .announced hsvc), ?_, rfl, rfl, rfl⟩
       intro o hom
       simp only [List.mem_append] at hom
       rcases hom with hom | hom
@@ -758,7 +991,7 @@ theorem execRegisterResend_keeps (s : State) (now j : Nat) (fullname : BList) (i
     · exact ⟨hw, fun _ h => by simp at h, rfl, rfl, rfl⟩
   · exact ⟨h, fun _ h => by simp at h, rfl, rfl, rfl⟩
 
-theorem execRerun_keeps (now j : Nat) (acc : State × List Out) (r : ReRun) (idx : Nat) (n : BList) (st nx : Nat) (R : List RR)
+theorem execRerun_keeps (now j : Nat) (acc : State × List Out) (r : ReRun) (idx : Nat) (n : BList) (st nx : Nat) (R : Cargo)
     (h : Watch acc.1 idx n st nx R) (ho : ∀ o ∈ acc.2, asksFor idx n o = false)
     (hr : ∀ t p k v, r = .unregisterResend t p k v → p.flags ≠ 0) :
     Watch (execRerun now j acc r).1 idx n st nx R ∧ (∀ o ∈ (execRerun now j acc r).2, asksFor idx n o = false) ∧
@@ -789,7 +1022,7 @@ theorem execRerun_keeps (now j : Nat) (acc : State × List Out) (r : ReRun) (idx
         · simp at hom
       · simp at hom
 
-theorem runReruns_keeps (s : State) (now j : Nat) (idx : Nat) (n : BList) (st nx : Nat) (R : List RR)
+theorem runReruns_keeps (s : State) (now j : Nat) (idx : Nat) (n : BList) (st nx : Nat) (R : Cargo)
     (h : Watch s idx n st nx R) (hr : RerunsOk s) :
     Watch (runReruns s now j).1 idx n st nx R ∧ (∀ o ∈ (runReruns s now j).2, asksFor idx n o = false) ∧
     (runReruns s now j).1.intfs = s.intfs ∧ (runReruns s now j).1.stopped = s.stopped ∧ RerunsOk (runReruns s now j).1 := by
@@ -798,7 +1031,7 @@ theorem runReruns_keeps (s : State) (now j : Nat) (idx : Nat) (n : BList) (st nx
       a.1.intfs = s.intfs ∧ a.1.stopped = s.stopped ∧ a.1.reruns = s.reruns.filter (fun r => !decide (now ≥ r.next)))
     (execRerun now j) (s.reruns.filter (fun r => decide (now ≥ r.next)))
     ({ s with reruns := s.reruns.filter (fun r => !decide (now ≥ r.next)) }, [])
-    ⟨h.congr rfl, fun _ h => by simp at h, rfl, rfl, rfl⟩
+    ⟨h.congr rfl rfl rfl, fun _ h => by simp at h, rfl, rfl, rfl⟩
     (fun a r hrm ha => by
       obtain ⟨hw, hout, e1, e2, e3⟩ := execRerun_keeps now j a r idx n st nx R ha.1 ha.2.1
         (fun t p k v e => hr t p k v (e ▸ (List.mem_filter.mp hrm).1))
@@ -886,20 +1119,26 @@ theorem runIpCheck_registries (s : State) (now : Nat) :
   repeat' split
   all_goals exact ⟨rfl, rfl, rfl, rfl⟩
 
+theorem runIpCheck_services (s : State) (now : Nat) : (runIpCheck s now).services = s.services := by
+  unfold runIpCheck
+  repeat' split
+  all_goals rfl
+
 /-! ### the watched probe across idle iterations -/
 
 /-- the daemon runs, interface `i` is there once, the probe of `n` on `i` has start `st`,
     next send `nx` and holds the records `R`, and no queued goodbye repeat is a query -/
-structure Good (s : State) (i : MyIntf) (l1 l2 : List MyIntf) (n : BList) (st nx : Nat) (R : List RR) : Prop where
+structure Good (s : State) (i : MyIntf) (l1 l2 : List MyIntf) (n : BList) (st nx : Nat) (R : Cargo) : Prop where
   running : s.stopped = false
   intfs : IntfsOk s i l1 l2
   watch : Watch s i.index n st nx R
   reruns : RerunsOk s
 
-theorem Watch.weaken {s : State} {idx : Nat} {n : BList} {st nx : Nat} {R R' : List RR} (h : Watch s idx n st nx R')
-    (hsub : ∀ a ∈ R, a ∈ R') : Watch s idx n st nx R := by
-  obtain ⟨p, hp, h1, h2, h3⟩ := h.probe
-  exact ⟨⟨p, hp, h1, h2, fun a ha => h3 a (hsub a ha)⟩, h.pn, h.noRen⟩
+theorem Watch.weaken {s : State} {idx : Nat} {n : BList} {st nx : Nat} {R R' : Cargo} (h : Watch s idx n st nx R')
+    (hsub : ∀ a ∈ R.recs, a ∈ R'.recs) (hwsub : ∀ w ∈ R.waits, w ∈ R'.waits) (hact : R.act = R'.act) : Watch s idx n st nx R := by
+  obtain ⟨p, hp, h1, h2, h3, h4⟩ := h.probe
+  exact ⟨⟨p, hp, h1, h2, fun a ha => h3 a (hsub a ha), fun w hw => h4 w (hwsub w hw)⟩, h.pn, h.noRen, h.act.trans hact.symm,
+    h.settled⟩
 
 /-- did this iteration send a probe query for `n` on the interface? -/
 def asked (idx : Nat) (n : BList) (outs : List Out) : Bool := outs.any (asksFor idx n)
@@ -908,17 +1147,17 @@ def asked (idx : Nat) (n : BList) (outs : List Out) : Bool := outs.any (asksFor 
     the probe query for `n` leaves on `i` - over every family of the interface, with `ANY n` among
     the questions and all of `R` among the authorities - exactly if `now ≥ nx`; then `nx` becomes
     `now + 250`; otherwise nothing about the probe changes. -/
-theorem loopTail_step (s : State) (i : MyIntf) (l1 l2 : List MyIntf) (n : BList) (st nx : Nat) (R : List RR) (now j : Nat)
+theorem loopTail_step (s : State) (i : MyIntf) (l1 l2 : List MyIntf) (n : BList) (st nx : Nat) (R : Cargo) (now j : Nat)
     (h : Good s i l1 l2 n st nx R) (hlive : now < nx ∨ now < st + 750) :
     Good (loopTail s now j).1 i l1 l2 n st (if now ≥ nx then now + 250 else nx) R ∧
     (now < nx → asked i.index n (loopTail s now j).2 = false) ∧
     (now ≥ nx → ∀ v4, i.hasFamily v4 = true → ∃ pkt, Out.send i.index v4 none pkt ∈ (loopTail s now j).2 ∧
-      pkt.flags = 0 ∧ (n, TYPE_ANY) ∈ pkt.questions ∧ ∀ a ∈ R, a ∈ pkt.authorities) := by
+      pkt.flags = 0 ∧ (n, TYPE_ANY) ∈ pkt.questions ∧ ∀ a ∈ R.recs, a ∈ pkt.authorities) := by
   unfold loopTail
   -- after the re-runs
   obtain ⟨hw4, ho4, hi4, hs4, hr4⟩ := runReruns_keeps s now j i.index n st nx R
     h.watch h.reruns
-  obtain ⟨p, hp, hst, hnx, hrec⟩ := hw4.probe
+  obtain ⟨p, hp, hst, hnx, hrec, hwait⟩ := hw4.probe
   have hintfs4 : IntfsOk (runReruns s now j).1 i l1 l2 :=
     ⟨hi4.trans h.intfs.split, h.intfs.other⟩
   have hact : p.action now ≠ .expire := by
@@ -929,7 +1168,7 @@ theorem loopTail_step (s : State) (i : MyIntf) (l1 l2 : List MyIntf) (n : BList)
       · omega
       · simp
     · simp
-  obtain ⟨hw5, hidle5, hsend5⟩ := probingHandler_probe _ now j i l1 l2 hintfs4 n p hp hw4.pn hw4.noRen hact
+  obtain ⟨hw5, hidle5, hsend5⟩ := probingHandler_probe _ now j i l1 l2 hintfs4 n p hp hw4 hact
   obtain ⟨hf5i, hf5s⟩ := probingHandler_frame (runReruns s now j).1 now j
   obtain ⟨e1, e2, e3, e4⟩ := runIpCheck_registries
     (probingHandler (runReruns s now j).1 now j).1 now
@@ -944,7 +1183,7 @@ theorem loopTail_step (s : State) (i : MyIntf) (l1 l2 : List MyIntf) (n : BList)
   · rw [e3, hf5s, hs4]; exact h.running
   · exact ⟨by rw [e2, hf5i]; exact hintfs4.split, h.intfs.other⟩
   · rw [← hnext, ← hst]
-    exact (hw5.congr e1).weaken hrec
+    exact (hw5.congr e1 (runIpCheck_services _ now) e2).weaken hrec hwait hw4.act.symm
   · intro t pk k v hm
     rw [e4] at hm
     exact probingHandler_rerunsOk _ now j hr4 t pk k v hm
@@ -969,26 +1208,26 @@ theorem loopTail_step (s : State) (i : MyIntf) (l1 l2 : List MyIntf) (n : BList)
     the probe query for `n` leaves on `i` - over every family of the interface, with `ANY n` among
     the questions and all of `R` among the authorities - exactly if `now ≥ nx`; then `nx` becomes
     `now + 250`; otherwise nothing about the probe changes. -/
-theorem iter_idle_step (s : State) (i : MyIntf) (l1 l2 : List MyIntf) (n : BList) (st nx : Nat) (R : List RR) (now j : Nat)
+theorem iter_idle_step (s : State) (i : MyIntf) (l1 l2 : List MyIntf) (n : BList) (st nx : Nat) (R : Cargo) (now j : Nat)
     (h : Good s i l1 l2 n st nx R) (hlive : now < nx ∨ now < st + 750) :
     Good (iter s (idle now j)).1 i l1 l2 n st (if now ≥ nx then now + 250 else nx) R ∧
     (now < nx → asked i.index n (iter s (idle now j)).2 = false) ∧
     (now ≥ nx → ∀ v4, i.hasFamily v4 = true → ∃ pkt, Out.send i.index v4 none pkt ∈ (iter s (idle now j)).2 ∧
-      pkt.flags = 0 ∧ (n, TYPE_ANY) ∈ pkt.questions ∧ ∀ a ∈ R, a ∈ pkt.authorities) := by
+      pkt.flags = 0 ∧ (n, TYPE_ANY) ∈ pkt.questions ∧ ∀ a ∈ R.recs, a ∈ pkt.authorities) := by
   rw [iter_idle s now j h.running]
   exact loopTail_step _ i l1 l2 n st nx R now j
-    ⟨h.running, ⟨h.intfs.split, h.intfs.other⟩, h.watch.congr rfl, h.reruns⟩ hlive
+    ⟨h.running, ⟨h.intfs.split, h.intfs.other⟩, h.watch.congr rfl rfl rfl, h.reruns⟩ hlive
 
 /-- the tail of the iteration in which the probe ends (`now ≥ nx`, `now ≥ st + 750`): no probe query
     for `n`, and every record of `R` filed under `n` is active afterwards -/
-theorem loopTail_end (s : State) (i : MyIntf) (l1 l2 : List MyIntf) (n : BList) (st nx : Nat) (R : List RR) (now j : Nat)
+theorem loopTail_end (s : State) (i : MyIntf) (l1 l2 : List MyIntf) (n : BList) (st nx : Nat) (R : Cargo) (now j : Nat)
     (h : Good s i l1 l2 n st nx R) (h1 : now ≥ nx) (h2 : now ≥ st + 750) :
     asked i.index n (loopTail s now j).2 = false ∧
-    ∀ a ∈ R, a.getName = n → ((loopTail s now j).1.registry i.index).isActive a = true := by
+    ∀ a ∈ R.recs, a.getName = n → ((loopTail s now j).1.registry i.index).isActive a = true := by
   unfold loopTail
   obtain ⟨hw4, ho4, hi4, hs4, hr4⟩ := runReruns_keeps s now j i.index n st nx R
     h.watch h.reruns
-  obtain ⟨p, hp, hst, hnx, hrec⟩ := hw4.probe
+  obtain ⟨p, hp, hst, hnx, hrec, hwait⟩ := hw4.probe
   have hintfs4 : IntfsOk (runReruns s now j).1 i l1 l2 :=
     ⟨hi4.trans h.intfs.split, h.intfs.other⟩
   have hact : p.action now = .expire := by
@@ -1007,13 +1246,13 @@ theorem loopTail_end (s : State) (i : MyIntf) (l1 l2 : List MyIntf) (n : BList) 
 
 /-- the idle iteration in which the probe ends (`now ≥ nx`, `now ≥ st + 750`): no probe query
     for `n`, and every record of `R` filed under `n` is active afterwards -/
-theorem iter_idle_end (s : State) (i : MyIntf) (l1 l2 : List MyIntf) (n : BList) (st nx : Nat) (R : List RR) (now j : Nat)
+theorem iter_idle_end (s : State) (i : MyIntf) (l1 l2 : List MyIntf) (n : BList) (st nx : Nat) (R : Cargo) (now j : Nat)
     (h : Good s i l1 l2 n st nx R) (h1 : now ≥ nx) (h2 : now ≥ st + 750) :
     asked i.index n (iter s (idle now j)).2 = false ∧
-    ∀ a ∈ R, a.getName = n → ((iter s (idle now j)).1.registry i.index).isActive a = true := by
+    ∀ a ∈ R.recs, a.getName = n → ((iter s (idle now j)).1.registry i.index).isActive a = true := by
   rw [iter_idle s now j h.running]
   exact loopTail_end _ i l1 l2 n st nx R now j
-    ⟨h.running, ⟨h.intfs.split, h.intfs.other⟩, h.watch.congr rfl, h.reruns⟩ h1 h2
+    ⟨h.running, ⟨h.intfs.split, h.intfs.other⟩, h.watch.congr rfl rfl rfl, h.reruns⟩ h1 h2
 
 /-- a run of idle iterations at the given times: final state and (time, outputs) per iteration -/
 def idleRun (j : Nat) : State → List Nat → State × List (Nat × List Out)
@@ -1035,7 +1274,7 @@ theorem askTimes_append (idx : Nat) (n : BList) (a b : List (Nat × List Out)) :
   simp [askTimes]
 
 /-- iterations before the probe is due change nothing and ask nothing -/
-theorem idleRun_skip (j : Nat) (i : MyIntf) (l1 l2 : List MyIntf) (n : BList) (st nx : Nat) (R : List RR) :
+theorem idleRun_skip (j : Nat) (i : MyIntf) (l1 l2 : List MyIntf) (n : BList) (st nx : Nat) (R : Cargo) :
     ∀ (pre : List Nat) (s : State), Good s i l1 l2 n st nx R → (∀ t ∈ pre, t < nx) →
       Good (idleRun j s pre).1 i l1 l2 n st nx R ∧ askTimes i.index n (idleRun j s pre).2 = [] := by
   intro pre
@@ -1055,11 +1294,11 @@ theorem idleRun_skip (j : Nat) (i : MyIntf) (l1 l2 : List MyIntf) (n : BList) (s
     exact hask'
 
 /-- the iteration at exactly the due time `nx` (before the probe's end) asks, and moves `nx` -/
-theorem idleRun_send (j : Nat) (i : MyIntf) (l1 l2 : List MyIntf) (n : BList) (st nx : Nat) (R : List RR) (s : State)
+theorem idleRun_send (j : Nat) (i : MyIntf) (l1 l2 : List MyIntf) (n : BList) (st nx : Nat) (R : Cargo) (s : State)
     (h : Good s i l1 l2 n st nx R) (hlive : nx < st + 750) (hfam : ∃ v4, i.hasFamily v4 = true) :
     Good (idleRun j s [nx]).1 i l1 l2 n st (nx + 250) R ∧ askTimes i.index n (idleRun j s [nx]).2 = [nx] ∧
     ∀ v4, i.hasFamily v4 = true → ∃ pkt, Out.send i.index v4 none pkt ∈ (iter s (idle nx j)).2 ∧
-      pkt.flags = 0 ∧ (n, TYPE_ANY) ∈ pkt.questions ∧ ∀ a ∈ R, a ∈ pkt.authorities := by
+      pkt.flags = 0 ∧ (n, TYPE_ANY) ∈ pkt.questions ∧ ∀ a ∈ R.recs, a ∈ pkt.authorities := by
   obtain ⟨hg, _, hsend⟩ := iter_idle_step s i l1 l2 n st nx R nx j h (Or.inr hlive)
   simp only [ge_iff_le, Nat.le_refl, ↓reduceIte] at hg
   have hs := hsend (Nat.le_refl _)
@@ -1073,7 +1312,7 @@ theorem idleRun_send (j : Nat) (i : MyIntf) (l1 l2 : List MyIntf) (n : BList) (s
   simp [idleRun, askTimes, hasked]
 
 /-- any iterations before the due time, then the iteration at the due time: one probe query -/
-theorem idleRun_phase (j : Nat) (i : MyIntf) (l1 l2 : List MyIntf) (n : BList) (st nx : Nat) (R : List RR) (s : State)
+theorem idleRun_phase (j : Nat) (i : MyIntf) (l1 l2 : List MyIntf) (n : BList) (st nx : Nat) (R : Cargo) (s : State)
     (pre : List Nat) (h : Good s i l1 l2 n st nx R) (hlive : nx < st + 750) (hfam : ∃ v4, i.hasFamily v4 = true)
     (hpre : ∀ t ∈ pre, t < nx) :
     Good (idleRun j s (pre ++ [nx])).1 i l1 l2 n st (nx + 250) R ∧ askTimes i.index n (idleRun j s (pre ++ [nx])).2 = [nx] := by
@@ -1084,10 +1323,10 @@ theorem idleRun_phase (j : Nat) (i : MyIntf) (l1 l2 : List MyIntf) (n : BList) (
 
 /-- any iterations before the due time, then the iteration at the due time when the probe is
     750 ms old: no probe query, the records are active -/
-theorem idleRun_final (j : Nat) (i : MyIntf) (l1 l2 : List MyIntf) (n : BList) (st nx : Nat) (R : List RR) (s : State)
+theorem idleRun_final (j : Nat) (i : MyIntf) (l1 l2 : List MyIntf) (n : BList) (st nx : Nat) (R : Cargo) (s : State)
     (pre : List Nat) (h : Good s i l1 l2 n st nx R) (hend : nx ≥ st + 750) (hpre : ∀ t ∈ pre, t < nx) :
     askTimes i.index n (idleRun j s (pre ++ [nx])).2 = [] ∧
-    ∀ a ∈ R, a.getName = n → ((idleRun j s (pre ++ [nx])).1.registry i.index).isActive a = true := by
+    ∀ a ∈ R.recs, a.getName = n → ((idleRun j s (pre ++ [nx])).1.registry i.index).isActive a = true := by
   obtain ⟨hg1, ha1⟩ := idleRun_skip j i l1 l2 n st nx R pre s h hpre
   obtain ⟨hno, hact⟩ := iter_idle_end _ i l1 l2 n st nx R nx j hg1 (Nat.le_refl _) hend
   rw [idleRun_append]
@@ -1111,7 +1350,7 @@ theorem announce_pair_creates (svc : Service) (i : MyIntf) (r0 : Registry) (now 
     (hprobe : svc.probe = true) (hne : addrsOn svc i v4 ≠ []) (ha : a ∈ uniqueRecords svc i r0 v4) (hname : a.getName = n)
     (hinactive : r0.isActive a = false) (hfresh : alookup n r0.probing = none) :
     ∃ p b, alookup n (prepareAnnounceReg svc i (prepareAnnounceReg svc i r0 true now j) false now j).probing = some p ∧
-      p.start = now + j ∧ p.next = now + j ∧ b ∈ p.records ∧ a.matchesRR b = true := by
+      p.start = now + j ∧ p.next = now + j ∧ b ∈ p.records ∧ a.matchesRR b = true ∧ svc.fullname ∈ p.waiting := by
   have a1 := prepareAnnounceReg_active svc i r0 true now j
   have a2 := prepareAnnounceReg_active svc i (prepareAnnounceReg svc i r0 true now j) false now j
   -- times: whatever probe of `n` exists at the end is fresh
@@ -1122,43 +1361,55 @@ theorem announce_pair_creates (svc : Service) (i : MyIntf) (r0 : Registry) (now 
     | none => exact (prepareAnnounceReg_times svc i _ false now j n).1 h1 p hp
     | some q =>
       have hq := (prepareAnnounceReg_times svc i r0 true now j n).1 hfresh q h1
-      obtain ⟨p', hp', e1, e2⟩ := (prepareAnnounceReg_times svc i _ false now j n).2 q h1
+      obtain ⟨p', hp', hor⟩ := (prepareAnnounceReg_times svc i _ false now j n).2 q h1
       rw [hp'] at hp
       cases hp
-      exact ⟨e1.trans hq.1, e2.trans hq.2⟩
+      rcases hor with ⟨e1, e2⟩ | ⟨e1, e2, _⟩
+      · exact ⟨e1.trans hq.1, e2.trans hq.2⟩
+      · exact ⟨e1, e2⟩
   -- existence: by the family that lists `a`
   have hex : ∃ p b, alookup n (prepareAnnounceReg svc i (prepareAnnounceReg svc i r0 true now j) false now j).probing = some p ∧
-      b ∈ p.records ∧ a.matchesRR b = true := by
+      b ∈ p.records ∧ a.matchesRR b = true ∧ svc.fullname ∈ p.waiting := by
     cases v4 with
     | true =>
-      rcases prepare_registers_all svc i r0 true now j hprobe hne a ha with hact | ⟨p, hp, hany, _⟩
+      rcases prepare_registers_all svc i r0 true now j hprobe hne a ha with hact | ⟨p, hp, hany, hw⟩
       · rw [isActive_congr a1.1] at hact
         rw [hinactive] at hact; cases hact
       · rw [hname] at hp
-        obtain ⟨p2, hp2, _, _, hsub⟩ := prepareAnnounceReg_keeps svc i _ false now j n p hp
+        obtain ⟨p2, hp2, hsub, hwsub, _⟩ := prepareAnnounceReg_grows svc i _ false now j n p hp
         obtain ⟨b, hb, hm⟩ := List.any_eq_true.mp hany
-        exact ⟨p2, b, hp2, hsub b hb, hm⟩
+        exact ⟨p2, b, hp2, hsub b hb, hm, hwsub _ hw⟩
     | false =>
       have ha' : a ∈ uniqueRecords svc i (prepareAnnounceReg svc i r0 true now j) false := by
         rw [uniqueRecords_congr a1.2]; exact ha
-      rcases prepare_registers_all svc i _ false now j hprobe hne a ha' with hact | ⟨p, hp, hany, _⟩
+      rcases prepare_registers_all svc i _ false now j hprobe hne a ha' with hact | ⟨p, hp, hany, hw⟩
       · rw [isActive_congr (a2.1.trans a1.1)] at hact
         rw [hinactive] at hact; cases hact
       · rw [hname] at hp
         obtain ⟨b, hb, hm⟩ := List.any_eq_true.mp hany
-        exact ⟨p, b, hp, hb, hm⟩
-  obtain ⟨p, b, hp, hb, hm⟩ := hex
-  exact ⟨p, b, hp, (htimes p hp).1, (htimes p hp).2, hb, hm⟩
+        exact ⟨p, b, hp, hb, hm, hw⟩
+  obtain ⟨p, b, hp, hb, hm, hw⟩ := hex
+  exact ⟨p, b, hp, (htimes p hp).1, (htimes p hp).2, hb, hm, hw⟩
 
-/-- what `send_unsolicited_response` keeps of the service while it walks the interfaces -/
-structure SvcSame (u : Service) (svc : Service) : Prop where
-  uniq : ∀ i r v, uniqueRecords u i r v = uniqueRecords svc i r v
-  addrs : ∀ i v, addrsOn u i v = addrsOn svc i v
-  probe : u.probe = svc.probe
-  full : u.fullname = svc.fullname
+theorem Held.kept {r : Registry} {a : RR} {w : BList} (h : Held r a w) : Kept r a.getName a := by
+  rcases h with h | ⟨p, hp, hany, _⟩
+  · exact Or.inl h
+  · exact Or.inr ⟨p, hp, hany⟩
 
-theorem SvcSame.setStatus {u svc : Service} (h : SvcSame u svc) (k : Nat) (st : Status) : SvcSame (u.setStatus k st) svc :=
-  ⟨fun i r v => h.uniq i r v, fun i v => h.addrs i v, h.probe, h.full⟩
+/-- after the two calls of `announce_service_on_intf` nothing of the service is left to come to
+    a probe: every unique record (of a family with an in-subnet address) is active or matched in
+    the probe of its name -/
+theorem announce_pair_settles (svc : Service) (i : MyIntf) (r0 : Registry) (now j : Nat) (hprobe : svc.probe = true)
+    (v4 : Bool) (hne : addrsOn svc i v4 ≠ []) (a : RR) (ha : a ∈ uniqueRecords svc i r0 v4) :
+    Kept (prepareAnnounceReg svc i (prepareAnnounceReg svc i r0 true now j) false now j) a.getName a := by
+  have a1 := prepareAnnounceReg_active svc i r0 true now j
+  cases v4 with
+  | true =>
+    exact (prepare_registers_all svc i r0 true now j hprobe hne a ha).kept.ext rfl (prepareAnnounceReg_ext svc i _ false now j _)
+  | false =>
+    have ha' : a ∈ uniqueRecords svc i (prepareAnnounceReg svc i r0 true now j) false := by
+      rw [uniqueRecords_congr a1.2]; exact ha
+    exact (prepare_registers_all svc i _ false now j hprobe hne a ha').kept
 
 theorem unsolOnIntf_svcSame (now j : Nat) (u : Unsol) (i : MyIntf) (svc : Service) (h : SvcSame u.svc svc) :
     SvcSame (unsolOnIntf now j u i).svc svc := by
@@ -1176,28 +1427,60 @@ theorem unsolOnIntf_registry_other (now j : Nat) (u : Unsol) (i : MyIntf) (idx :
 
 theorem unsolOnIntf_frame (now j : Nat) (u : Unsol) (i : MyIntf) :
     (unsolOnIntf now j u i).state.intfs = u.state.intfs ∧ (unsolOnIntf now j u i).state.stopped = u.state.stopped ∧
-    (unsolOnIntf now j u i).state.reruns = u.state.reruns ∧
+    (unsolOnIntf now j u i).state.reruns = u.state.reruns ∧ (unsolOnIntf now j u i).state.services = u.state.services ∧
     (∀ o ∈ (unsolOnIntf now j u i).outs, o ∈ u.outs ∨ ∀ idx n, asksFor idx n o = false) := by
   unfold unsolOnIntf
   simp only []
   split
-  · refine ⟨rfl, rfl, rfl, ?_⟩
+  · refine ⟨rfl, rfl, rfl, rfl, ?_⟩
     intro o ho
     simp only [List.mem_append] at ho
     rcases ho with ho | ho
     · exact Or.inl ho
     · exact Or.inr (fun idx n => sendsOf_not_asks u.svc i _ _ idx n o ho)
-  · exact ⟨rfl, rfl, rfl, fun o ho => Or.inl ho⟩
+  · exact ⟨rfl, rfl, rfl, rfl, fun o ho => Or.inl ho⟩
 
-/-- the step of `send_unsolicited_response` on the watched interface creates the probe -/
+/-- the registry-level part of `Watch` -/
+def WatchR (r : Registry) (n : BList) (st nx : Nat) (R : Cargo) : Prop :=
+  (∃ p, alookup n r.probing = some p ∧ p.start = st ∧ p.next = nx ∧ (∀ a ∈ R.recs, a ∈ p.records) ∧
+    ∀ w ∈ R.waits, w ∈ p.waiting) ∧
+  KeysNodup r.probing ∧ NoRen r ∧ alookup n r.active = R.act
+
+theorem Watch.of_registry {s : State} {idx : Nat} {n : BList} {st nx : Nat} {R : Cargo}
+    (h : WatchR (s.registry idx) n st nx R) (hs : Settled s idx n) : Watch s idx n st nx R :=
+  ⟨h.1, h.2.1, h.2.2.1, h.2.2.2, hs⟩
+
+/-- the registry of the interface after the step of `send_unsolicited_response`: that of the two
+    `prepare_announce` calls, with `new_timers` drained or not -/
+theorem unsolOnIntf_registry_self (now j : Nat) (u : Unsol) (i : MyIntf) :
+    ∃ X, (unsolOnIntf now j u i).state.registry i.index =
+      { (prepareAnnounceReg u.svc i (prepareAnnounceReg u.svc i (u.state.registry i.index) true now j) false now j) with
+        newTimers := X } := by
+  unfold unsolOnIntf
+  simp only []
+  split
+  · exact ⟨_, registry_setRegistry_self _ _ _⟩
+  · exact ⟨[], registry_setRegistry_self _ _ _⟩
+
+/-- the step of `send_unsolicited_response` on the watched interface creates the probe, and
+    leaves no record of the service to come to it later -/
 theorem unsolOnIntf_creates (now j : Nat) (u : Unsol) (i : MyIntf) (svc : Service) (v4 : Bool) (a : RR) (n : BList)
     (hs : SvcSame u.svc svc) (hprobe : svc.probe = true) (hne : addrsOn svc i v4 ≠ [])
     (ha : a ∈ uniqueRecords svc i (u.state.registry i.index) v4) (hname : a.getName = n)
     (hinactive : (u.state.registry i.index).isActive a = false) (hfresh : alookup n (u.state.registry i.index).probing = none)
     (hpn : KeysNodup (u.state.registry i.index).probing) (hnr : NoRen (u.state.registry i.index)) :
-    ∃ b, a.matchesRR b = true ∧ b.getName = n ∧ Watch (unsolOnIntf now j u i).state i.index n (now + j) (now + j) [b] := by
-  obtain ⟨p, b, hp, h1, h2, hb, hm⟩ := announce_pair_creates u.svc i (u.state.registry i.index) now j v4 a n
+    ∃ b, a.matchesRR b = true ∧ b.getName = n ∧
+      WatchR ((unsolOnIntf now j u i).state.registry i.index) n (now + j) (now + j)
+        ⟨[b], [svc.fullname], alookup n (u.state.registry i.index).active⟩ ∧
+      Ext n (u.state.registry i.index) ((unsolOnIntf now j u i).state.registry i.index) ∧
+      (∀ v4', addrsOn svc i v4' ≠ [] → ∀ a' ∈ uniqueRecords svc i {} v4', a'.getName = n →
+        Kept ((unsolOnIntf now j u i).state.registry i.index) n a') := by
+  obtain ⟨p, b, hp, h1, h2, hb, hm, hwt⟩ := announce_pair_creates u.svc i (u.state.registry i.index) now j v4 a n
     (hs.probe.trans hprobe) (by rw [hs.addrs]; exact hne) (by rw [hs.uniq]; exact ha) hname hinactive hfresh
+  rw [hs.full] at hwt
+  have hact2 : (prepareAnnounceReg u.svc i (prepareAnnounceReg u.svc i (u.state.registry i.index) true now j) false now j).active =
+      (u.state.registry i.index).active :=
+    (prepareAnnounceReg_active u.svc i _ false now j).1.trans (prepareAnnounceReg_active u.svc i _ true now j).1
   have hpn2 := announce_pair_pn u.svc i hpn now j
   have hnr2 := announce_pair_noRen u.svc i hnr now j
   have hbname : b.getName = n := by
@@ -1208,56 +1491,85 @@ theorem unsolOnIntf_creates (now j : Nat) (u : Unsol) (i : MyIntf) (svc : Servic
       exact hm.1.1.1
     rw [← hname]
     simp [RR.getName, hbnew, hanew, hnm]
-  refine ⟨b, hm, hbname, ?_⟩
-  unfold unsolOnIntf
-  simp only []
-  split
-  · have e := registry_setRegistry_self u.state i.index
-      (prepareAnnounceReg u.svc i (prepareAnnounceReg u.svc i (u.state.registry i.index) true now j) false now j)
-    exact ⟨⟨p, by rw [e]; exact hp, h1, h2, fun x hx => by simp only [List.mem_cons, List.not_mem_nil, or_false] at hx; rw [hx]; exact hb⟩,
-      by rw [e]; exact hpn2, by rw [e]; exact hnr2⟩
-  · have e : ({ (u.state.setRegistry i.index
-        { (prepareAnnounceReg u.svc i (prepareAnnounceReg u.svc i (u.state.registry i.index) true now j) false now j) with
-          newTimers := [] }) with timers := u.state.timers ++
-        (prepareAnnounceReg u.svc i (prepareAnnounceReg u.svc i (u.state.registry i.index) true now j) false now j).newTimers } : State).registry i.index =
-        { (prepareAnnounceReg u.svc i (prepareAnnounceReg u.svc i (u.state.registry i.index) true now j) false now j) with
-          newTimers := [] } := registry_setRegistry_self _ _ _
-    exact ⟨⟨p, by rw [e]; exact hp, h1, h2, fun x hx => by simp only [List.mem_cons, List.not_mem_nil, or_false] at hx; rw [hx]; exact hb⟩,
-      by rw [e]; exact hpn2, by rw [e]; exact hnr2⟩
+  have hext := announce_pair_ext u.svc i (u.state.registry i.index) now j n
+  have hkept : ∀ v4', addrsOn svc i v4' ≠ [] → ∀ a' ∈ uniqueRecords svc i {} v4', a'.getName = n →
+      Kept (prepareAnnounceReg u.svc i (prepareAnnounceReg u.svc i (u.state.registry i.index) true now j) false now j) n a' := by
+    intro v4' hne' a' ha' hn'
+    have := announce_pair_settles u.svc i (u.state.registry i.index) now j (hs.probe.trans hprobe) v4'
+      (by rw [hs.addrs]; exact hne') a' (by rw [hs.uniq, uniqueRecords_congr (r := {}) hnr.1]; exact ha')
+    rw [hn'] at this
+    exact this
+  obtain ⟨X, hX⟩ := unsolOnIntf_registry_self now j u i
+  refine ⟨b, hm, hbname, ?_, ?_, ?_⟩
+  · rw [hX]
+    exact ⟨⟨p, hp, h1, h2,
+        fun x hx => by simp only [List.mem_cons, List.not_mem_nil, or_false] at hx; rw [hx]; exact hb,
+        fun w hw => by simp only [List.mem_cons, List.not_mem_nil, or_false] at hw; rw [hw]; exact hwt⟩,
+      hpn2, hnr2, by simp only [hact2]⟩
+  · rw [hX]; exact hext
+  · rw [hX]; exact hkept
 
-theorem unsolOnIntf_other_keeps (now j : Nat) (u : Unsol) (i' : MyIntf) (idx : Nat) (n : BList) (st nx : Nat) (R : List RR)
-    (hne : i'.index ≠ idx) (h : Watch u.state idx n st nx R) : Watch (unsolOnIntf now j u i').state idx n st nx R :=
-  h.of_registry_eq (unsolOnIntf_registry_other now j u i' idx hne)
+/-- the interfaces: `i` once, every other interface with another index -/
+theorem IntfsOk.unique {s : State} {i : MyIntf} {l1 l2 : List MyIntf} (h : IntfsOk s i l1 l2) {i' : MyIntf}
+    (hm : i' ∈ s.intfs) (hidx : i'.index = i.index) : i' = i := by
+  rw [h.split] at hm
+  simp only [List.mem_append, List.mem_cons] at hm
+  rcases hm with hm | rfl | hm
+  · exact absurd hidx (h.other i' (List.mem_append.mpr (Or.inl hm)))
+  · rfl
+  · exact absurd hidx (h.other i' (List.mem_append.mpr (Or.inr hm)))
+
+theorem IntfsOk.mem {s : State} {i : MyIntf} {l1 l2 : List MyIntf} (h : IntfsOk s i l1 l2) : i ∈ s.intfs := by
+  rw [h.split]; simp
+
+theorem IntfsOk.find {s : State} {i : MyIntf} {l1 l2 : List MyIntf} (h : IntfsOk s i l1 l2) :
+    s.intfs.find? (·.index == i.index) = some i := by
+  rw [h.split, List.find?_append]
+  have h1 : l1.find? (·.index == i.index) = none := by
+    rw [List.find?_eq_none]
+    intro x hx
+    have := h.other x (List.mem_append.mpr (Or.inl hx))
+    simpa using this
+  simp [h1]
 
 /-- `send_unsolicited_response` of a registration: the probe of `n` on interface `i` is created
-    fresh at `now + jitter`, nothing else about the daemon that the schedule theorems need changes -/
+    fresh at `now + jitter`, no record of the service is left to come to it, nothing else about
+    the daemon that the schedule theorems need changes -/
 theorem sendUnsolicited_creates (s : State) (svc : Service) (now j : Nat) (i : MyIntf) (l1 l2 : List MyIntf)
     (hi : IntfsOk s i l1 l2) (v4 : Bool) (a : RR) (n : BList)
     (hprobe : svc.probe = true) (hne : addrsOn svc i v4 ≠ [])
     (ha : a ∈ uniqueRecords svc i (s.registry i.index) v4) (hname : a.getName = n)
     (hinactive : (s.registry i.index).isActive a = false) (hfresh : alookup n (s.registry i.index).probing = none)
     (hpn : KeysNodup (s.registry i.index).probing) (hnr : NoRen (s.registry i.index)) (hok : RerunsOk s) :
-    ∃ b, a.matchesRR b = true ∧ b.getName = n ∧ Watch (sendUnsolicited s svc now j).state i.index n (now + j) (now + j) [b] ∧
+    ∃ b, a.matchesRR b = true ∧ b.getName = n ∧
+      WatchR ((sendUnsolicited s svc now j).state.registry i.index) n (now + j) (now + j)
+        ⟨[b], [svc.fullname], alookup n (s.registry i.index).active⟩ ∧
+      Ext n (s.registry i.index) ((sendUnsolicited s svc now j).state.registry i.index) ∧
+      SvcSettled ((sendUnsolicited s svc now j).state.registry i.index) s.intfs i.index n svc ∧
+      SvcSame (sendUnsolicited s svc now j).svc svc ∧
       (sendUnsolicited s svc now j).state.intfs = s.intfs ∧ (sendUnsolicited s svc now j).state.stopped = s.stopped ∧
+      (sendUnsolicited s svc now j).state.services = s.services ∧
       RerunsOk (sendUnsolicited s svc now j).state ∧
       (∀ o ∈ (sendUnsolicited s svc now j).outs, ∀ idx n', asksFor idx n' o = false) := by
   -- the fold over the interfaces, in three phases
-  have hsame0 : SvcSame svc svc := ⟨fun _ _ _ => rfl, fun _ _ => rfl, rfl, rfl⟩
+  have hsame0 : SvcSame svc svc := SvcSame.refl svc
   have frame : ∀ (l : List MyIntf) (u0 : Unsol),
       (l.foldl (unsolOnIntf now j) u0).state.intfs = u0.state.intfs ∧ (l.foldl (unsolOnIntf now j) u0).state.stopped = u0.state.stopped ∧
       (l.foldl (unsolOnIntf now j) u0).state.reruns = u0.state.reruns ∧
+      (l.foldl (unsolOnIntf now j) u0).state.services = u0.state.services ∧
       (SvcSame u0.svc svc → SvcSame (l.foldl (unsolOnIntf now j) u0).svc svc) ∧
       ((∀ o ∈ u0.outs, ∀ idx n', asksFor idx n' o = false) →
         ∀ o ∈ (l.foldl (unsolOnIntf now j) u0).outs, ∀ idx n', asksFor idx n' o = false) := by
     intro l u0
     refine foldl_inv (fun (u : Unsol) => u.state.intfs = u0.state.intfs ∧ u.state.stopped = u0.state.stopped ∧
-      u.state.reruns = u0.state.reruns ∧ (SvcSame u0.svc svc → SvcSame u.svc svc) ∧
+      u.state.reruns = u0.state.reruns ∧ u.state.services = u0.state.services ∧ (SvcSame u0.svc svc → SvcSame u.svc svc) ∧
       ((∀ o ∈ u0.outs, ∀ idx n', asksFor idx n' o = false) → ∀ o ∈ u.outs, ∀ idx n', asksFor idx n' o = false))
-      (unsolOnIntf now j) l u0 ⟨rfl, rfl, rfl, id, id⟩ ?_
+      (unsolOnIntf now j) l u0 ⟨rfl, rfl, rfl, rfl, id, id⟩ ?_
     intro u i' _ hu
-    obtain ⟨f1, f2, f3, f4⟩ := unsolOnIntf_frame now j u i'
-    exact ⟨f1.trans hu.1, f2.trans hu.2.1, f3.trans hu.2.2.1, fun h => unsolOnIntf_svcSame now j u i' svc (hu.2.2.2.1 h),
-      fun h o ho => (f4 o ho).elim (hu.2.2.2.2 h o) id⟩
+    obtain ⟨f1, f2, f3, f3', f4⟩ := unsolOnIntf_frame now j u i'
+    exact ⟨f1.trans hu.1, f2.trans hu.2.1, f3.trans hu.2.2.1, f3'.trans hu.2.2.2.1,
+      fun h => unsolOnIntf_svcSame now j u i' svc (hu.2.2.2.2.1 h),
+      fun h o ho => (f4 o ho).elim (hu.2.2.2.2.2 h o) id⟩
   have regother : ∀ (l : List MyIntf) (u0 : Unsol), (∀ i' ∈ l, i'.index ≠ i.index) →
       (l.foldl (unsolOnIntf now j) u0).state.registry i.index = u0.state.registry i.index := by
     intro l u0 hl
@@ -1267,30 +1579,55 @@ theorem sendUnsolicited_creates (s : State) (svc : Service) (now j : Nat) (i : M
   have ho2 : ∀ i' ∈ l2, i'.index ≠ i.index := fun i' h => hi.other i' (List.mem_append.mpr (Or.inr h))
   -- phase 1
   have r1 := regother l1 { state := s, svc := svc } ho1
-  obtain ⟨f1i, f1s, f1r, f1same, f1out⟩ := frame l1 { state := s, svc := svc }
+  obtain ⟨f1i, f1s, f1r, f1v, f1same, f1out⟩ := frame l1 { state := s, svc := svc }
   -- phase 2
-  obtain ⟨b, hm, hbn, hw2⟩ := unsolOnIntf_creates now j (l1.foldl (unsolOnIntf now j) { state := s, svc := svc }) i svc v4 a n
+  obtain ⟨b, hm, hbn, hw2, hext2, hkept2⟩ := unsolOnIntf_creates now j (l1.foldl (unsolOnIntf now j) { state := s, svc := svc }) i svc v4 a n
     (f1same hsame0) hprobe hne (by rw [r1]; exact ha) hname (by rw [r1]; exact hinactive) (by rw [r1]; exact hfresh)
     (by rw [r1]; exact hpn) (by rw [r1]; exact hnr)
-  obtain ⟨f2i, f2s, f2r, f2out⟩ := unsolOnIntf_frame now j (l1.foldl (unsolOnIntf now j) { state := s, svc := svc }) i
+  obtain ⟨f2i, f2s, f2r, f2v, f2out⟩ := unsolOnIntf_frame now j (l1.foldl (unsolOnIntf now j) { state := s, svc := svc }) i
+  have f2same := unsolOnIntf_svcSame now j (l1.foldl (unsolOnIntf now j) { state := s, svc := svc }) i svc (f1same hsame0)
   -- phase 3
   have r3 := regother l2 (unsolOnIntf now j (l1.foldl (unsolOnIntf now j) { state := s, svc := svc }) i) ho2
-  obtain ⟨f3i, f3s, f3r, _, f3out⟩ := frame l2 (unsolOnIntf now j (l1.foldl (unsolOnIntf now j) { state := s, svc := svc }) i)
+  obtain ⟨f3i, f3s, f3r, f3v, f3same, f3out⟩ := frame l2 (unsolOnIntf now j (l1.foldl (unsolOnIntf now j) { state := s, svc := svc }) i)
   have hfold : s.intfs.foldl (unsolOnIntf now j) { state := s, svc := svc } =
       l2.foldl (unsolOnIntf now j) (unsolOnIntf now j (l1.foldl (unsolOnIntf now j) { state := s, svc := svc }) i) := by
     rw [hi.split, List.foldl_append, List.foldl_cons]
-  refine ⟨b, hm, hbn, ?_⟩
-  unfold sendUnsolicited
-  simp only [hfold]
-  refine ⟨?_, f3i.trans (f2i.trans f1i), f3s.trans (f2s.trans f1s), ?_, ?_⟩
-  · exact (hw2.of_registry_eq r3).congr rfl
-  · intro t pk k v hmem
+  have hreg : (sendUnsolicited s svc now j).state.registry i.index =
+      (unsolOnIntf now j (l1.foldl (unsolOnIntf now j) { state := s, svc := svc }) i).state.registry i.index := by
+    unfold sendUnsolicited
+    simp only [hfold]
+    exact (registry_congr (s := (l2.foldl (unsolOnIntf now j)
+      (unsolOnIntf now j (l1.foldl (unsolOnIntf now j) { state := s, svc := svc }) i)).state) rfl i.index).trans r3
+  rw [r1] at hw2 hext2
+  refine ⟨b, hm, hbn, by rw [hreg]; exact hw2, by rw [hreg]; exact hext2, ?_, ?_, ?_, ?_, ?_, ?_, ?_⟩
+  · intro _ i' hi' hidx v4' hne' a' ha' hn'
+    have := hi.unique hi' hidx
+    subst this
+    rw [hreg]
+    exact hkept2 v4' hne' a' ha' hn'
+  · unfold sendUnsolicited
+    simp only [hfold]
+    exact f3same f2same
+  · unfold sendUnsolicited
+    simp only [hfold]
+    exact f3i.trans (f2i.trans f1i)
+  · unfold sendUnsolicited
+    simp only [hfold]
+    exact f3s.trans (f2s.trans f1s)
+  · unfold sendUnsolicited
+    simp only [hfold]
+    exact f3v.trans (f2v.trans f1v)
+  · unfold sendUnsolicited
+    simp only [hfold]
+    intro t pk k v hmem
     simp only [List.mem_append, List.mem_map] at hmem
     rcases hmem with hmem | ⟨_, _, hmem⟩
     · rw [f3r, f2r, f1r] at hmem
       exact hok t pk k v hmem
     · cases hmem
-  · exact f3out (fun o ho => (f2out o ho).elim (f1out (fun _ h => by simp at h) o) id)
+  · unfold sendUnsolicited
+    simp only [hfold]
+    exact f3out (fun o ho => (f2out o ho).elim (f1out (fun _ h => by simp at h) o) id)
 
 theorem registerService_stopped (s : State) (svc : Service) (now j : Nat) :
     (registerService s svc now j).1.stopped = s.stopped := by
@@ -1322,7 +1659,8 @@ theorem registerService_eq (s : State) (svc : Service) (now j : Nat)
 /-- REGISTRATION STARTS THE PROBE.  A daemon in any running state processes `register(svc)` at
     `now` under jitter `j` (no datagram, no other command in that iteration).  For a unique
     record `a` of the service on interface `i` (SRV, TXT or an in-subnet address) that this
-    daemon does not hold yet (not active, its name `n` not being probed): afterwards the probe of
+    daemon does not hold yet (not active, its name `n` not being probed), no record of another
+    registered service being left to come to a probe of `n` (`Settled`): afterwards the probe of
     `n` on `i` exists with start `now + j`, containing `a` or a matching record `b`; the first
     probe query has gone out in this very iteration iff `j = 0` (then the next one is due at
     `now + 250`), otherwise nothing was asked and the first query is due at `now + j`. -/
@@ -1333,22 +1671,37 @@ theorem registration_creates_probe (s : State) (i : MyIntf) (l1 l2 : List MyIntf
     (hlen : Names.checkServiceNameLength svc.ty s.nameLenMax = .ok ()) (hauto : svc.addrAuto = false)
     (hprobe : svc.probe = true) (hne : addrsOn svc i v4 ≠ [])
     (ha : a ∈ uniqueRecords svc i (s.registry i.index) v4) (hname : a.getName = n)
-    (hinactive : (s.registry i.index).isActive a = false) (hfresh : alookup n (s.registry i.index).probing = none) :
+    (hinactive : (s.registry i.index).isActive a = false) (hfresh : alookup n (s.registry i.index).probing = none)
+    (hset : Settled s i.index n) :
     ∃ b, a.matchesRR b = true ∧ b.getName = n ∧
       Good (iter s { now := now, jitter := j, cmds := [.register svc] }).1 i l1 l2 n (now + j)
-        (if j = 0 then now + 250 else now + j) [b] ∧
+        (if j = 0 then now + 250 else now + j) ⟨[b], [svc.fullname], alookup n (s.registry i.index).active⟩ ∧
       (j ≠ 0 → asked i.index n (iter s { now := now, jitter := j, cmds := [.register svc] }).2 = false) ∧
       (j = 0 → ∀ v4', i.hasFamily v4' = true →
         ∃ pkt, Out.send i.index v4' none pkt ∈ (iter s { now := now, jitter := j, cmds := [.register svc] }).2 ∧
           pkt.flags = 0 ∧ (n, TYPE_ANY) ∈ pkt.questions ∧ b ∈ pkt.authorities) := by
   rw [iter_register s svc now j hrun,
     registerService_eq { s with timers := s.timers.filter (· > now) } svc now j hlen hauto]
-  obtain ⟨b, hm, hbn, hw, hintfs, hstop, hrer, houts⟩ := sendUnsolicited_creates
+  obtain ⟨b, hm, hbn, hw, hext, hsvcset, hsame, hintfs, hstop, hsvcs, hrer, houts⟩ := sendUnsolicited_creates
     { s with timers := s.timers.filter (· > now) } svc now j i l1 l2 ⟨hi.split, hi.other⟩ v4 a n hprobe hne ha hname hinactive hfresh
     hpn hnr hok
-  have hgood : Good (registerChecked { s with timers := s.timers.filter (· > now) } svc now j).1 i l1 l2 n (now + j) (now + j) [b] := by
+  have hgood : Good (registerChecked { s with timers := s.timers.filter (· > now) } svc now j).1 i l1 l2 n (now + j) (now + j)
+      ⟨[b], [svc.fullname], alookup n (s.registry i.index).active⟩ := by
     unfold registerChecked
-    exact ⟨hstop.trans hrun, ⟨hintfs.trans hi.split, hi.other⟩, hw.congr rfl, hrer⟩
+    refine ⟨hstop.trans hrun, ⟨hintfs.trans hi.split, hi.other⟩, Watch.of_registry hw ?_, hrer⟩
+    -- no record of a registered service is left to come to the probe: the new service by its
+    -- registration, the others because they were settled before
+    intro k svc' hk
+    show SvcSettled _ (sendUnsolicited { s with timers := s.timers.filter (· > now) } svc now j).state.intfs i.index n svc'
+    rw [hintfs]
+    by_cases e : k = lower svc.fullname
+    · subst e
+      simp only [alookup_aset_self] at hk
+      cases hk
+      exact hsvcset.same hsame
+    · simp only [alookup_aset_ne _ _ _ _ e] at hk
+      rw [hsvcs] at hk
+      exact (hset k svc' hk).ext hext
   have houts3 : ∀ o ∈ (registerChecked { s with timers := s.timers.filter (· > now) } svc now j).2, asksFor i.index n o = false := by
     unfold registerChecked
     intro o ho
@@ -1358,7 +1711,7 @@ theorem registration_creates_probe (s : State) (i : MyIntf) (l1 l2 : List MyIntf
     · split at ho
       · simp at ho
       · exact notify_not_asks _ _ i.index n o ho
-  obtain ⟨hg, hno, hsend⟩ := loopTail_step _ i l1 l2 n (now + j) (now + j) [b] now j hgood (Or.inr (by omega))
+  obtain ⟨hg, hno, hsend⟩ := loopTail_step _ i l1 l2 n (now + j) (now + j) ⟨[b], [svc.fullname], alookup n (s.registry i.index).active⟩ now j hgood (Or.inr (by omega))
   have hnx : (if now ≥ now + j then now + 250 else now + j) = (if j = 0 then now + 250 else now + j) := by
     by_cases hj : j = 0
     · subst hj; simp
